@@ -1,4 +1,1472 @@
 import LenaModel.Model.C19
-/-! # C19 — theorems (under construction) -/
 namespace Lena.C19
+set_option linter.unusedSectionVars false
+set_option linter.unusedSimpArgs false
+-- file names are opaque in the proofs (only equality of names matters)
+attribute [local irreducible] pdfPathOf pngPathOf
+variable {C : Type} [DecidableEq C]
+
+@[simp] theorem FS.set_eq (fs : FS C) (p : String) (f : File C) : (fs.set p f) p = some f := by simp [FS.set]
+theorem FS.set_ne (fs : FS C) {p q : String} (f : File C) (h : q ≠ p) : (fs.set p f) q = fs q := by simp [FS.set, h]
+
+@[simp] theorem put_fs_eq (w : World C) (p : String) (c : C) (e : Event) : (w.put p c e).fs p = some ⟨c, w.clock⟩ := by
+  simp [World.put]
+theorem put_fs_ne (w : World C) {p q : String} (c : C) (e : Event) (h : q ≠ p) : (w.put p c e).fs q = w.fs q := by
+  simp [World.put, FS.set, h]
+@[simp] theorem put_clock (w : World C) (p : String) (c : C) (e : Event) : (w.put p c e).clock = w.clock + 1 := rfl
+@[simp] theorem note_fs (w : World C) (e : Event) : (w.note e).fs = w.fs := rfl
+@[simp] theorem note_clock (w : World C) (e : Event) : (w.note e).clock = w.clock := rfl
+
+/-- every file is older than the clock -/
+def ClockInv (w : World C) : Prop := ∀ p f, w.fs p = some f → f.mtime < w.clock
+
+theorem ClockInv.put {w : World C} (h : ClockInv w) (p : String) (c : C) (e : Event) : ClockInv (w.put p c e) := by
+  intro q f hq
+  by_cases hqp : q = p
+  · subst hqp; simp at hq; subst hq; simp
+  · rw [put_fs_ne _ _ _ hqp] at hq; have := h q f hq; simp; omega
+
+/-- what a `Write` leaves in the file: the new text, except that `existing_unchanged` keeps an existing file -/
+def effective (mode : WMode) (old : Option (File C)) (new : C) : C :=
+  match mode, old with
+  | .existingUnchanged, some f => f.content
+  | _, _ => new
+
+theorem effective_cases (mode : WMode) (old : Option (File C)) (new : C) :
+    effective mode old new = new ∨ ∃ f, old = some f ∧ effective mode old new = f.content := by
+  cases mode <;> cases old <;> first | exact .inl rfl | exact .inr ⟨_, rfl, rfl⟩
+
+/-- a file with content `c` is at path `p` -/
+def HasContent (fs : FS C) (p : String) (c : C) : Prop := ∃ f, fs p = some f ∧ f.content = c
+
+theorem writeCore_frame (mode : WMode) (p : String) (c : C) (w : World C) (chg : Option Bool) {q : String} (h : q ≠ p) :
+    (writeCore mode p c w chg).1.fs q = w.fs q := by
+  unfold writeCore
+  split
+  · split
+    · rfl
+    · exact put_fs_ne _ _ _ h
+    · split
+      · exact put_fs_ne _ _ _ h
+      · rfl
+  · exact put_fs_ne _ _ _ h
+
+theorem writeCore_content (mode : WMode) (p : String) (c : C) (w : World C) (chg : Option Bool) :
+    HasContent (writeCore mode p c w chg).1.fs p (effective mode (w.fs p) c) := by
+  unfold writeCore HasContent
+  split
+  next f hf =>
+    split
+    · exact ⟨f, hf, by simp [effective, hf]⟩
+    · exact ⟨_, put_fs_eq _ _ _ _, by simp [effective]⟩
+    · split
+      · exact ⟨_, put_fs_eq _ _ _ _, by simp [effective]⟩
+      next hc => exact ⟨f, hf, by simp at hc; simp [effective, hc]⟩
+  next hf => exact ⟨_, put_fs_eq _ _ _ _, by simp [effective, hf]⟩
+
+theorem writeCore_clockInv (mode : WMode) (p : String) (c : C) (w : World C) (chg : Option Bool) (h : ClockInv w) :
+    ClockInv (writeCore mode p c w chg).1 := by
+  unfold writeCore
+  split
+  · split
+    · exact h
+    · exact h.put _ _ _
+    · split
+      · exact h.put _ _ _
+      · exact h
+  · exact h.put _ _ _
+
+theorem writeCore_clock_le (mode : WMode) (p : String) (c : C) (w : World C) (chg : Option Bool) :
+    w.clock ≤ (writeCore mode p c w chg).1.clock := by
+  unfold writeCore
+  split
+  · split
+    · exact Nat.le_refl _
+    · simp
+    · split
+      · simp
+      · exact Nat.le_refl _
+  · simp
+
+/-- the three outcomes of `Write`: `changed` is true afterwards; or the file existed and is kept as it is
+(`changed` is the incoming value, `False` when unset); or the file did not exist, is created now and
+`changed` is left as it came. -/
+theorem writeCore_cases (mode : WMode) (p : String) (c : C) (w : World C) (chg : Option Bool) :
+    (writeCore mode p c w chg).2 = some true
+    ∨ ((writeCore mode p c w chg) = (w, some (chg.getD false)) ∧ ∃ f, w.fs p = some f ∧ effective mode (w.fs p) c = f.content)
+    ∨ (w.fs p = none ∧ writeCore mode p c w chg = (w.put p c (.write p), chg)) := by
+  unfold writeCore
+  split
+  next f hf =>
+    split
+    · exact .inr (.inl ⟨rfl, f, hf, by simp [effective, hf]⟩)
+    · exact .inl rfl
+    · split
+      · exact .inl rfl
+      next hc => exact .inr (.inl ⟨rfl, f, hf, by simp at hc; simp [effective, hc]⟩)
+  next hf => exact .inr (.inr ⟨hf, rfl⟩)
+
+
+/-! ## the converters -/
+
+def depContents (fs : FS C) (ps : List String) : List (Option C) := ps.map fun p => (fs p).map (·.content)
+
+theorem latexCore_launch (conv : Conv C) (lo : Bool) (texP pdfP : String) (w : World C) (chg : Option Bool) (tf : File C)
+    (ht : w.fs texP = some tf) (h : chg = some true ∨ lo = true ∨ w.fs pdfP = none) :
+    latexCore conv lo texP pdfP w chg
+      = .ok (w.put pdfP (conv.pdfOf tf.content (depContents w.fs (conv.depsOf tf.content))) (.latex texP), true, true) := by
+  unfold latexCore depContents
+  rcases h with h | h | h
+  · subst h; simp [ht]
+  · subst h; cases chg <;> cases hp : w.fs pdfP <;> simp [ht]
+  · cases chg <;> simp [ht, h]
+
+theorem latexCore_skip (conv : Conv C) (texP pdfP : String) (w : World C) (h : (w.fs pdfP).isSome) :
+    latexCore conv false texP pdfP w (some false) = .ok (w, false, true) := by
+  unfold latexCore
+  simp [h]
+
+theorem pngCore_run (conv : Conv C) (po : Bool) (pdfP pngP : String) (w : World C) (chg : Option Bool) (pf : File C)
+    (hp : w.fs pdfP = some pf) (h : w.fs pngP = none ∨ po = true ∨ chg = some true) :
+    pngCore conv po pdfP pngP w chg = (w.put pngP (conv.pngOf pf.content) (.topng pdfP), true) := by
+  unfold pngCore
+  rcases h with h | h | h <;> simp [h, hp]
+
+theorem pngCore_skip (conv : Conv C) (pdfP pngP : String) (w : World C) (h : (w.fs pngP).isSome) :
+    pngCore conv false pdfP pngP w (some false) = (w, false) := by
+  unfold pngCore
+  cases hg : w.fs pngP <;> simp_all
+
+
+/-! ## one unit: source files, the `.tex` file, the pdf and the image -/
+
+/-- the files of one plot (or of one group of plots): the CSV files, the `.tex` file that names them, the pdf
+rendered from them and the image converted from the pdf -/
+structure FUnit where
+  csvs : List String
+  tex : String
+  pdf : String
+  png : String
+
+def FUnit.Distinct (u : FUnit) : Prop :=
+  u.tex ∉ u.csvs ∧ u.pdf ∉ u.csvs ∧ u.png ∉ u.csvs ∧ u.tex ≠ u.pdf ∧ u.tex ≠ u.png ∧ u.pdf ≠ u.png
+
+/-- `LaTeXToPDF` then `PDFToPNG` on the value of a unit whose incoming `output.changed` is `c`: the world and
+the `output.changed` of the yielded value (`none`: the LaTeX command failed, nothing is yielded) -/
+def convCore (conv : Conv C) (lo po : Bool) (u : FUnit) (w : World C) (c : Option Bool) :
+    Except Exc (World C × Option Bool) :=
+  match latexCore conv lo u.tex u.pdf w c with
+  | .error e => .error e
+  | .ok (w3, _, false) => .ok (w3, none)
+  | .ok (w3, c3, true) =>
+    let r := pngCore conv po u.pdf u.png w3 (some c3)
+    .ok (r.1, some r.2)
+
+/-- second `Write` (the `.tex` file), `LaTeXToPDF`, `PDFToPNG` -/
+def downCore (conv : Conv C) (m2 : WMode) (lo po : Bool) (u : FUnit) (ntex : C) (w : World C) (c1 : Option Bool) :
+    Except Exc (World C × Option Bool) :=
+  let r2 := writeCore m2 u.tex ntex w c1
+  convCore conv lo po u r2.1 r2.2
+
+theorem convCore_launch (conv : Conv C) (lo po : Bool) (u : FUnit) (w : World C) (c : Option Bool) (tf : File C)
+    (hd : u.Distinct) (hclk : ClockInv w) (ht : w.fs u.tex = some tf)
+    (h : c = some true ∨ lo = true ∨ w.fs u.pdf = none) :
+    ∃ w', convCore conv lo po u w c = .ok (w', some true) ∧
+      HasContent w'.fs u.pdf (conv.pdfOf tf.content (depContents w.fs (conv.depsOf tf.content))) ∧
+      HasContent w'.fs u.png (conv.pngOf (conv.pdfOf tf.content (depContents w.fs (conv.depsOf tf.content)))) ∧
+      (∀ q, q ≠ u.pdf → q ≠ u.png → w'.fs q = w.fs q) ∧ ClockInv w' ∧ w.clock ≤ w'.clock := by
+  obtain ⟨_, _, _, _, _, hpg⟩ := hd
+  unfold convCore
+  rw [latexCore_launch conv lo u.tex u.pdf w c tf ht h]
+  simp only
+  rw [pngCore_run conv po u.pdf u.png _ (some true) ⟨_, w.clock⟩ (put_fs_eq _ _ _ _) (.inr (.inr rfl))]
+  refine ⟨_, rfl, ?_, ?_, ?_, ?_, ?_⟩
+  · exact ⟨_, by rw [put_fs_ne _ _ _ hpg, put_fs_eq], rfl⟩
+  · exact ⟨_, put_fs_eq _ _ _ _, rfl⟩
+  · intro q h1 h2; rw [put_fs_ne _ _ _ h2, put_fs_ne _ _ _ h1]
+  · exact (hclk.put _ _ _).put _ _ _
+  · simp; omega
+
+theorem convCore_skip (conv : Conv C) (po : Bool) (u : FUnit) (w : World C) (pf : File C)
+    (hpg : u.pdf ≠ u.png) (hclk : ClockInv w) (hp : w.fs u.pdf = some pf)
+    (hpng : ∀ gf, w.fs u.png = some gf → gf.content = conv.pngOf pf.content) :
+    ∃ w' c, convCore conv false po u w (some false) = .ok (w', some c) ∧
+      w'.fs u.pdf = some pf ∧ HasContent w'.fs u.png (conv.pngOf pf.content) ∧
+      (∀ q, q ≠ u.png → w'.fs q = w.fs q) ∧ ClockInv w' ∧ w.clock ≤ w'.clock := by
+  unfold convCore
+  rw [latexCore_skip conv u.tex u.pdf w (by simp [hp])]
+  simp only
+  by_cases hrun : w.fs u.png = none ∨ po = true
+  · rw [pngCore_run conv po u.pdf u.png w (some false) pf hp (by rcases hrun with h | h <;> simp [h])]
+    exact ⟨_, _, rfl, by rw [put_fs_ne _ _ _ hpg, hp], ⟨_, put_fs_eq _ _ _ _, rfl⟩, fun q h => put_fs_ne _ _ _ h,
+        hclk.put _ _ _, by simp⟩
+  · have hg : (w.fs u.png).isSome := by
+      cases hgg : w.fs u.png with
+      | none => exact absurd (.inl hgg) hrun
+      | some _ => rfl
+    have hpo : po = false := by
+      cases po with
+      | false => rfl
+      | true => exact absurd (.inr rfl) hrun
+    subst hpo
+    rw [pngCore_skip conv u.pdf u.png w hg]
+    obtain ⟨gf, hgf⟩ := Option.isSome_iff_exists.mp hg
+    exact ⟨_, _, rfl, hp, ⟨gf, hgf, hpng gf hgf⟩, fun q _ => rfl, hclk, Nat.le_refl _⟩
+
+
+/-- **The second `Write` and the two converters, for all option settings.**  `w` is the world after the source
+stage, `c1` the `output.changed` that the source stage hands on.  If `c1` is true, or the pdf is missing, or
+the existing pdf is what the LaTeX command produces from the files now on disk (`hsrc`), and an existing pdf
+has its `.tex` file on disk (`hsc`), then afterwards the `.tex` file holds the current text, the pdf is
+rendered from it and from the CSV files on disk, and the image is converted from that pdf. -/
+theorem downCore_spec (conv : Conv C) (m2 : WMode) (lo po : Bool) (u : FUnit) (ntex : C) (w : World C) (c1 : Option Bool)
+    (hd : u.Distinct) (hclk : ClockInv w)
+    (htd : ∀ tf, w.fs u.tex = some tf → conv.depsOf tf.content = u.csvs)
+    (hpng : ∀ gf pf, w.fs u.png = some gf → w.fs u.pdf = some pf → gf.content = conv.pngOf pf.content)
+    (hsrc : c1 = some true ∨ w.fs u.pdf = none ∨
+      ∀ pf tf, w.fs u.pdf = some pf → w.fs u.tex = some tf → pf.content = conv.pdfOf tf.content (depContents w.fs u.csvs))
+    (hsc : (w.fs u.pdf).isSome → (w.fs u.tex).isSome)
+    (hdeps : conv.depsOf ntex = u.csvs) :
+    ∃ w' c, downCore conv m2 lo po u ntex w c1 = .ok (w', some c) ∧
+      HasContent w'.fs u.tex (effective m2 (w.fs u.tex) ntex) ∧
+      HasContent w'.fs u.pdf (conv.pdfOf (effective m2 (w.fs u.tex) ntex) (depContents w.fs u.csvs)) ∧
+      HasContent w'.fs u.png (conv.pngOf (conv.pdfOf (effective m2 (w.fs u.tex) ntex) (depContents w.fs u.csvs))) ∧
+      (∀ q, q ≠ u.tex → q ≠ u.pdf → q ≠ u.png → w'.fs q = w.fs q) ∧ ClockInv w' ∧ w.clock ≤ w'.clock := by
+  have hd' := hd
+  obtain ⟨htc, hpc, hgc, htp, htg, hpg⟩ := hd'
+  -- facts about the world after the second Write
+  have hcont := writeCore_content m2 u.tex ntex w c1
+  have hfr : ∀ q, q ≠ u.tex → (writeCore m2 u.tex ntex w c1).1.fs q = w.fs q :=
+    fun q h => writeCore_frame m2 u.tex ntex w c1 h
+  have hclk2 := writeCore_clockInv m2 u.tex ntex w c1 hclk
+  have hle2 := writeCore_clock_le m2 u.tex ntex w c1
+  obtain ⟨tf2, htf2, hc2⟩ := hcont
+  -- the text on disk names the CSV files of the unit
+  have hdeps2 : conv.depsOf tf2.content = u.csvs := by
+    rw [hc2]
+    rcases effective_cases m2 (w.fs u.tex) ntex with h | ⟨f, hf, h⟩
+    · rw [h]; exact hdeps
+    · rw [h]; exact htd f hf
+  have hdc : depContents (writeCore m2 u.tex ntex w c1).1.fs u.csvs = depContents w.fs u.csvs := by
+    unfold depContents
+    apply List.map_congr_left
+    intro p hp
+    rw [hfr p (fun h => htc (h ▸ hp))]
+  -- launching gives everything
+  have launch : (writeCore m2 u.tex ntex w c1).2 = some true ∨ lo = true ∨ (writeCore m2 u.tex ntex w c1).1.fs u.pdf = none →
+      ∃ w' c, downCore conv m2 lo po u ntex w c1 = .ok (w', some c) ∧
+      HasContent w'.fs u.tex (effective m2 (w.fs u.tex) ntex) ∧
+      HasContent w'.fs u.pdf (conv.pdfOf (effective m2 (w.fs u.tex) ntex) (depContents w.fs u.csvs)) ∧
+      HasContent w'.fs u.png (conv.pngOf (conv.pdfOf (effective m2 (w.fs u.tex) ntex) (depContents w.fs u.csvs))) ∧
+      (∀ q, q ≠ u.tex → q ≠ u.pdf → q ≠ u.png → w'.fs q = w.fs q) ∧ ClockInv w' ∧ w.clock ≤ w'.clock := by
+    intro h
+    obtain ⟨w', he, hpdf, hpngc, hframe, hck, hle⟩ := convCore_launch conv lo po u _ _ tf2 hd hclk2 htf2 h
+    rw [hdeps2, hdc, hc2] at hpdf hpngc
+    refine ⟨w', true, he, ⟨tf2, ?_, hc2⟩, hpdf, hpngc, ?_, hck, Nat.le_trans hle2 hle⟩
+    · rw [hframe u.tex htp htg]; exact htf2
+    · intro q h1 h2 h3; rw [hframe q h2 h3, hfr q h1]
+  by_cases hlo : lo = true
+  · exact launch (.inr (.inl hlo))
+  have hlo : lo = false := by
+    cases lo with
+    | false => rfl
+    | true => exact absurd rfl hlo
+  cases hpdf : w.fs u.pdf with
+  | none => exact launch (.inr (.inr (by rw [hfr u.pdf (Ne.symm htp)]; exact hpdf)))
+  | some pf =>
+    rcases writeCore_cases m2 u.tex ntex w c1 with h | ⟨heq, f, hf, he⟩ | ⟨hnone, _⟩
+    · exact launch (.inl h)
+    · -- the .tex file is kept as it is
+      rcases hsrc with h1 | h1 | h1
+      · exact launch (.inl (by rw [heq, h1]; rfl))
+      · rw [h1] at hpdf; cases hpdf
+      · by_cases hct : c1 = some true
+        · exact launch (.inl (by rw [heq, hct]; rfl))
+        · have hgd : c1.getD false = false := by
+            cases hc : c1 with
+            | none => rfl
+            | some b => cases b <;> simp_all
+          have hw : writeCore m2 u.tex ntex w c1 = (w, some false) := by rw [heq, hgd]
+          obtain ⟨w', c, hcv, hp', hg', hframe, hck, hle⟩ :=
+            convCore_skip conv po u w pf hpg hclk hpdf (fun gf hgf => hpng gf pf hgf hpdf)
+          have hpc' := h1 pf f hpdf hf
+          refine ⟨w', c, ?_, ⟨f, ?_, he.symm⟩, ⟨pf, hp', ?_⟩, ?_, ?_, hck, hle⟩
+          · unfold downCore; rw [hw, hlo]; exact hcv
+          · rw [hframe u.tex htg]; exact hf
+          · rw [he]; exact hpc'
+          · rw [he, ← hpc']; exact hg'
+          · intro q _ _ h3; exact hframe q h3
+    · -- the .tex file is missing although the pdf exists: excluded by `hsc`
+      have := hsc (by simp [hpdf])
+      simp [hnone] at this
+
+
+/-! ## invariant of a unit, `SourceClosed`, freshness -/
+
+/-- **Invariant between runs** (it survives the removal of any files): the `.tex` file on disk names the CSV
+files of the unit; a pdf whose `.tex` and CSV files are all on disk is what the LaTeX command produces from
+them; an image whose pdf is on disk was converted from it. -/
+structure UnitInv (conv : Conv C) (u : FUnit) (fs : FS C) : Prop where
+  texDeps : ∀ tf, fs u.tex = some tf → conv.depsOf tf.content = u.csvs
+  pdfCons : ∀ pf tf, fs u.pdf = some pf → fs u.tex = some tf → (∀ p ∈ u.csvs, (fs p).isSome) →
+    pf.content = conv.pdfOf tf.content (depContents fs u.csvs)
+  pngCons : ∀ gf pf, fs u.png = some gf → fs u.pdf = some pf → gf.content = conv.pngOf pf.content
+
+/-- every existing pdf has its `.tex` file and its CSV files on disk -/
+def SourceClosed (u : FUnit) (fs : FS C) : Prop :=
+  (fs u.pdf).isSome → (fs u.tex).isSome ∧ ∀ p ∈ u.csvs, (fs p).isSome
+
+/-- the files of the unit hold exactly what is produced from the CSV texts `ecsvs` and the LaTeX text `etex` -/
+def UnitFresh (conv : Conv C) (u : FUnit) (fs : FS C) (ecsvs : List C) (etex : C) : Prop :=
+  depContents fs u.csvs = ecsvs.map some ∧ HasContent fs u.tex etex ∧
+  HasContent fs u.pdf (conv.pdfOf etex (ecsvs.map some)) ∧
+  HasContent fs u.png (conv.pngOf (conv.pdfOf etex (ecsvs.map some)))
+
+theorem depContents_congr {fs fs' : FS C} {ps : List String} (h : ∀ p ∈ ps, fs' p = fs p) :
+    depContents fs' ps = depContents fs ps := by
+  unfold depContents
+  exact List.map_congr_left (fun p hp => by rw [h p hp])
+
+theorem UnitInv.of_fresh {conv : Conv C} {u : FUnit} {fs : FS C} {ecsvs : List C} {etex : C}
+    (h : UnitFresh conv u fs ecsvs etex) (hdeps : conv.depsOf etex = u.csvs) : UnitInv conv u fs := by
+  obtain ⟨hc, ⟨tf, htf, htc⟩, ⟨pf, hpf, hpc⟩, ⟨gf, hgf, hgc⟩⟩ := h
+  refine ⟨?_, ?_, ?_⟩
+  · intro tf' h'; rw [htf] at h'; cases h'; rw [htc]; exact hdeps
+  · intro pf' tf' h1 h2 _; rw [hpf] at h1; rw [htf] at h2; cases h1; cases h2; rw [hpc, htc, hc]
+  · intro gf' pf' h1 h2; rw [hgf] at h1; rw [hpf] at h2; cases h1; cases h2; rw [hgc, hpc]
+
+theorem UnitInv.del {conv : Conv C} {u : FUnit} {fs : FS C} (h : UnitInv conv u fs) (ps : List String) :
+    UnitInv conv u (fs.del ps) := by
+  have key : ∀ q f, (fs.del ps) q = some f → fs q = some f := by
+    intro q f hq; unfold FS.del at hq; split at hq
+    · cases hq
+    · exact hq
+  refine ⟨?_, ?_, ?_⟩
+  · intro tf h1; exact h.texDeps tf (key _ _ h1)
+  · intro pf tf h1 h2 h3
+    have hall : ∀ p ∈ u.csvs, (fs.del ps) p = fs p := by
+      intro p hp
+      have := h3 p hp
+      obtain ⟨f, hf⟩ := Option.isSome_iff_exists.mp this
+      rw [hf, key _ _ hf]
+    rw [depContents_congr hall]
+    exact h.pdfCons pf tf (key _ _ h1) (key _ _ h2) (fun p hp => by rw [← hall p hp]; exact h3 p hp)
+  · intro gf pf h1 h2; exact h.pngCons gf pf (key _ _ h1) (key _ _ h2)
+
+theorem UnitInv.empty (conv : Conv C) (u : FUnit) : UnitInv conv u (FS.empty : FS C) :=
+  ⟨fun _ h => by simp [FS.empty] at h, fun _ _ h => by simp [FS.empty] at h, fun _ _ h => by simp [FS.empty] at h⟩
+
+/-- **From the source stage to the converters.**  `w1` is the world after the CSV files were written and `c1`
+the `output.changed` handed on.  If only CSV files of the unit were touched and `c1` is true unless a CSV file
+was missing at the start or none was touched, then — for a run that starts `SourceClosed` — the hypotheses of
+`downCore_spec` hold. -/
+theorem down_of_source (conv : Conv C) (m2 : WMode) (lo po : Bool) (u : FUnit) (ntex : C) (w w1 : World C) (c1 : Option Bool)
+    (hd : u.Distinct) (hinv : UnitInv conv u w.fs) (hsc : SourceClosed u w.fs) (hclk1 : ClockInv w1)
+    (hframe : ∀ q, q ∉ u.csvs → w1.fs q = w.fs q)
+    (hall : ∀ p ∈ u.csvs, (w1.fs p).isSome)
+    (hflag : c1 = some true ∨ (∃ p ∈ u.csvs, w.fs p = none) ∨ (∀ p ∈ u.csvs, w1.fs p = w.fs p))
+    (hdeps : conv.depsOf ntex = u.csvs) :
+    ∃ w' c, downCore conv m2 lo po u ntex w1 c1 = .ok (w', some c) ∧
+      HasContent w'.fs u.tex (effective m2 (w.fs u.tex) ntex) ∧
+      HasContent w'.fs u.pdf (conv.pdfOf (effective m2 (w.fs u.tex) ntex) (depContents w1.fs u.csvs)) ∧
+      HasContent w'.fs u.png (conv.pngOf (conv.pdfOf (effective m2 (w.fs u.tex) ntex) (depContents w1.fs u.csvs))) ∧
+      (∀ q, q ≠ u.tex → q ≠ u.pdf → q ≠ u.png → w'.fs q = w1.fs q) ∧ ClockInv w' ∧ w1.clock ≤ w'.clock := by
+  have hd' := hd
+  obtain ⟨htc, hpc, hgc, _, _, _⟩ := hd'
+  have ht := hframe u.tex htc
+  have hp := hframe u.pdf hpc
+  have hg := hframe u.png hgc
+  have := downCore_spec conv m2 lo po u ntex w1 c1 hd hclk1
+    (fun tf h => hinv.texDeps tf (by rw [← ht]; exact h))
+    (fun gf pf h1 h2 => hinv.pngCons gf pf (by rw [← hg]; exact h1) (by rw [← hp]; exact h2))
+    (by
+      rcases hflag with h | ⟨p, hp1, hp2⟩ | h
+      · exact .inl h
+      · refine .inr (.inl ?_)
+        rw [hp]
+        cases hpdf : w.fs u.pdf with
+        | none => rfl
+        | some pf =>
+          have := (hsc (by simp [hpdf])).2 p hp1
+          simp [hp2] at this
+      · refine .inr (.inr ?_)
+        intro pf tf h1 h2
+        rw [depContents_congr h]
+        exact hinv.pdfCons pf tf (by rw [← hp]; exact h1) (by rw [← ht]; exact h2)
+          (fun p hp' => by rw [← h p hp']; exact hall p hp'))
+    (by rw [hp, ht]; exact fun h => (hsc h).1)
+    hdeps
+  rw [ht] at this
+  exact this
+
+
+/-! ## one plot: `Write` (csv), `Write` (tex), `LaTeXToPDF`, `PDFToPNG` -/
+
+/-- the bookkeeping of one plot whose CSV file is `pc` -/
+def sepCore (conv : Conv C) (m1 m2 : WMode) (lo po : Bool) (u : FUnit) (pc : String) (ncsv ntex : C) (w : World C) :
+    Except Exc (World C × Option Bool) :=
+  let r1 := writeCore m1 pc ncsv w none
+  downCore conv m2 lo po u ntex r1.1 r1.2
+
+theorem effective_deps (conv : Conv C) (u : FUnit) (fs : FS C) (m2 : WMode) (ntex : C)
+    (hinv : UnitInv conv u fs) (hdeps : conv.depsOf ntex = u.csvs) :
+    conv.depsOf (effective m2 (fs u.tex) ntex) = u.csvs := by
+  rcases effective_cases m2 (fs u.tex) ntex with h | ⟨f, hf, h⟩
+  · rw [h]; exact hdeps
+  · rw [h]; exact hinv.texDeps f hf
+
+/-- **`run_fresh_partial`, bookkeeping level, one plot, all option settings.**  For every world that satisfies the
+invariant and is `SourceClosed` for the plot, every data text `ncsv`, template text `ntex` (naming the CSV
+file) and every setting of the two `Write`s and the two converters: the run succeeds, afterwards the four files
+exist with exactly the content produced from the current texts (`existing_unchanged` keeps an existing
+source file, that is its documented contract), only the plot's files were touched, and the invariant holds again. -/
+theorem sepCore_fresh (conv : Conv C) (m1 m2 : WMode) (lo po : Bool) (u : FUnit) (pc : String) (ncsv ntex : C) (w : World C)
+    (hu : u.csvs = [pc]) (hd : u.Distinct) (hclk : ClockInv w) (hinv : UnitInv conv u w.fs)
+    (hsc : SourceClosed u w.fs) (hdeps : conv.depsOf ntex = u.csvs) :
+    ∃ w' c, sepCore conv m1 m2 lo po u pc ncsv ntex w = .ok (w', some c) ∧
+      UnitFresh conv u w'.fs [effective m1 (w.fs pc) ncsv] (effective m2 (w.fs u.tex) ntex) ∧
+      (∀ q, q ∉ u.csvs → q ≠ u.tex → q ≠ u.pdf → q ≠ u.png → w'.fs q = w.fs q) ∧
+      ClockInv w' ∧ w.clock ≤ w'.clock ∧ UnitInv conv u w'.fs := by
+  have hd' := hd
+  obtain ⟨htc, hpc, hgc, _, _, _⟩ := hd'
+  have hmem : ∀ q, q ∉ u.csvs ↔ q ≠ pc := by intro q; rw [hu]; simp
+  have hfr : ∀ q, q ∉ u.csvs → (writeCore m1 pc ncsv w none).1.fs q = w.fs q :=
+    fun q h => writeCore_frame m1 pc ncsv w none ((hmem q).mp h)
+  obtain ⟨cf, hcf, hcc⟩ := writeCore_content m1 pc ncsv w none
+  have hflag : (writeCore m1 pc ncsv w none).2 = some true ∨ (∃ p ∈ u.csvs, w.fs p = none) ∨
+      (∀ p ∈ u.csvs, (writeCore m1 pc ncsv w none).1.fs p = w.fs p) := by
+    rcases writeCore_cases m1 pc ncsv w none with h | ⟨heq, _⟩ | ⟨hnone, _⟩
+    · exact .inl h
+    · exact .inr (.inr (fun p _ => by rw [heq]))
+    · exact .inr (.inl ⟨pc, by rw [hu]; simp, hnone⟩)
+  obtain ⟨w', c, he, htex, hpdf, hpng, hframe, hck, hle⟩ :=
+    down_of_source conv m2 lo po u ntex w _ _ hd hinv hsc (writeCore_clockInv m1 pc ncsv w none hclk) hfr
+      (by intro p hp; rw [hu] at hp; simp at hp; subst hp; simp [hcf]) hflag hdeps
+  have hdc1 : depContents (writeCore m1 pc ncsv w none).1.fs u.csvs = [some (effective m1 (w.fs pc) ncsv)] := by
+    rw [hu]; simp [depContents, hcf, hcc]
+  rw [hdc1] at hpdf hpng
+  have hcsv' : ∀ p ∈ u.csvs, w'.fs p = (writeCore m1 pc ncsv w none).1.fs p := by
+    intro p hp
+    exact hframe p (fun h => htc (h ▸ hp)) (fun h => hpc (h ▸ hp)) (fun h => hgc (h ▸ hp))
+  have hfresh : UnitFresh conv u w'.fs [effective m1 (w.fs pc) ncsv] (effective m2 (w.fs u.tex) ntex) :=
+    ⟨by rw [depContents_congr hcsv', hdc1]; rfl, htex, hpdf, hpng⟩
+  refine ⟨w', c, he, hfresh, ?_, hck, Nat.le_trans (writeCore_clock_le m1 pc ncsv w none) hle,
+    UnitInv.of_fresh hfresh (effective_deps conv u w.fs m2 ntex hinv hdeps)⟩
+  intro q h0 h1 h2 h3
+  rw [hframe q h1 h2 h3, hfr q h0]
+
+
+/-! ## the pipeline of one plot is the bookkeeping on the resolved file names -/
+
+theorem mfStep_filetype (ow : Bool) (name : Option String) (o : OutCtx) (m : MFKey × Tpl) :
+    (mfStep ow name o m).1.filetype = o.filetype := by
+  obtain ⟨k, t⟩ := m
+  cases k <;> simp only [mfStep] <;> (repeat' split) <;> rfl
+
+theorem mfCall_filetype (ow : Bool) (ms : List (MFKey × Tpl)) (name : Option String) (o : OutCtx) :
+    (mfCall ow ms name o).1.filetype = o.filetype := by
+  unfold mfCall
+  suffices h : ∀ (acc : OutCtx × Bool),
+      (ms.foldl (fun acc m => let r := mfStep ow name acc.1 m; (r.1, acc.2 || r.2)) acc).1.filetype = acc.1.filetype from h _
+  induction ms with
+  | nil => intro acc; rfl
+  | cons m rest ih => intro acc; rw [List.foldl_cons, ih]; exact mfStep_filetype ow name acc.1 m
+
+/-- `context.output` of a plot after `ToCSV` and `MakeFilename` -/
+def plotCtx (cfg : Cfg) (ms : List (MFKey × Tpl)) (pl : Plot) : OutCtx :=
+  (mfCall cfg.mf.overwrite ms pl.name { filetype := some "csv" }).1
+
+/-- the file names that the two `Write`s and the two converters compute for a plot: its unit and its CSV path -/
+def plotUnit (cfg : Cfg) (ms : List (MFKey × Tpl)) (pl : Plot) : Except Exc (FUnit × String) :=
+  let o1 := plotCtx cfg ms pl
+  match wmfCore cfg.outdir "output" o1.dirname o1.filename o1.fileext (some "csv") with
+  | .error e => .error e
+  | .ok (_, fn, _, pc) =>
+    match wmfCore cfg.outdir "output" o1.dirname (some fn) (some "tex") (some "tex") with
+    | .error e => .error e
+    | .ok (_, _, _, pt) => .ok (⟨[pc], pt, pdfPathOf pt, pngPathOf (pdfPathOf pt) "png"⟩, pc)
+
+theorem mfStep_changed (ow : Bool) (name : Option String) (o : OutCtx) (m : MFKey × Tpl) :
+    (mfStep ow name o m).1.changed = o.changed := by
+  obtain ⟨k, t⟩ := m
+  cases k <;> simp only [mfStep] <;> (repeat' split) <;> rfl
+
+theorem mfCall_changed (ow : Bool) (ms : List (MFKey × Tpl)) (name : Option String) (o : OutCtx) :
+    (mfCall ow ms name o).1.changed = o.changed := by
+  unfold mfCall
+  suffices h : ∀ (acc : OutCtx × Bool),
+      (ms.foldl (fun acc m => let r := mfStep ow name acc.1 m; (r.1, acc.2 || r.2)) acc).1.changed = acc.1.changed from h _
+  induction ms with
+  | nil => intro acc; rfl
+  | cons m rest ih => intro acc; rw [List.foldl_cons, ih]; exact mfStep_changed ow name acc.1 m
+
+/-- `Write.run` on a text: the file name comes from `_make_filename`, the rest is `writeCore` -/
+theorem writeVal_text (conv : Conv C) (outdir : String) (mode : WMode) (w : World C) (v : Val C) (c : C)
+    (d fn fe p : String) (hd : v.data = .text c)
+    (hn : wmfCore outdir "output" v.out.dirname v.out.filename v.out.fileext v.out.filetype = .ok (d, fn, fe, p)) :
+    writeVal conv outdir mode w v = .ok ((writeCore mode p c w v.out.changed).1,
+      { v with data := .path p,
+               out := { v.out with filename := some fn, fileext := some fe, filepath := some p,
+                                   changed := (writeCore mode p c w v.out.changed).2 } }) := by
+  unfold writeVal wMakeFilename
+  rw [hd]
+  simp only [hn]
+  rfl
+
+theorem latexVal_path (conv : Conv C) (lo : Bool) (w : World C) (v : Val C) (t : String)
+    (hft : v.out.filetype = some "tex") (hd : v.data = .path t) :
+    latexVal conv lo w v =
+      match latexCore conv lo t (pdfPathOf t) w v.out.changed with
+      | .error e => .error e
+      | .ok (w', chg', yielded) =>
+        .ok (w', if yielded then
+          some { v with data := .path (pdfPathOf t), out := { v.out with filetype := some "pdf", changed := some chg' } }
+          else none) := by
+  unfold latexVal
+  rw [if_pos hft, hd]
+  rfl
+
+theorem pngVal_path (conv : Conv C) (po : Bool) (w : World C) (v : Val C) (t : String)
+    (hft : v.out.filetype = some "pdf") (hd : v.data = .path t) :
+    pngVal conv po "png" w v =
+      .ok ((pngCore conv po t (pngPathOf t "png") w v.out.changed).1,
+        { v with data := .path (pngPathOf t "png"),
+                 out := { v.out with filetype := some "png",
+                                     changed := some (pngCore conv po t (pngPathOf t "png") w v.out.changed).2 } }) := by
+  unfold pngVal
+  rw [if_pos hft, hd]
+
+/-- `RenderLaTeX → Write → LaTeXToPDF → PDFToPNG` on a CSV value is `downCore` on the resolved names -/
+theorem tailStage_eq_downCore (conv : Conv C) (cfg : Cfg) (tpl : Nat) (w : World C) (v : Val C) (deps : List String)
+    (d fn fe pt : String) (hft : v.out.filetype = some "csv")
+    (hdeps : (match v.group with
+              | none => v.out.filepath.toList
+              | some g => g.filterMap (·.filepath)) = deps)
+    (hn : wmfCore cfg.outdir "output" v.out.dirname v.out.filename (some "tex") (some "tex") = .ok (d, fn, fe, pt))
+    (u : FUnit) (hut : u.tex = pt) (hup : u.pdf = pdfPathOf pt) (hug : u.png = pngPathOf (pdfPathOf pt) "png") :
+    ∀ w' oc, downCore conv cfg.w2 cfg.lo cfg.po u (conv.texOf tpl deps) w v.out.changed = .ok (w', oc) →
+      ∃ ov, tailStage conv cfg tpl w v = .ok (w', ov) ∧ (oc = none → ov = none) ∧
+        (∀ c, oc = some c → ∃ v', ov = some v' ∧ v'.data = .path u.png ∧ v'.out.changed = some c ∧
+          v'.out.filepath = some u.tex) := by
+  intro w' oc hs
+  unfold tailStage
+  have hr : renderVal conv tpl v = ⟨Data.text (conv.texOf tpl deps), v.name,
+      { v.out with filetype := some "tex", fileext := some "tex" }, v.group⟩ := by
+    unfold renderVal; rw [if_pos hft]; subst hdeps; rfl
+  rw [writeVal_text conv cfg.outdir cfg.w2 w (renderVal conv tpl v) (conv.texOf tpl deps) d fn fe pt
+    (by rw [hr]) (by rw [hr]; exact hn)]
+  simp only [hr]
+  rw [latexVal_path conv cfg.lo _ _ pt rfl rfl]
+  unfold downCore convCore at hs
+  rw [hut, hup, hug] at hs
+  simp only at hs ⊢
+  generalize latexCore conv cfg.lo pt (pdfPathOf pt) (writeCore cfg.w2 pt (conv.texOf tpl deps) w v.out.changed).1
+    (writeCore cfg.w2 pt (conv.texOf tpl deps) w v.out.changed).2 = L at hs ⊢
+  match L, hs with
+  | .error e, hs => cases hs
+  | .ok (w3, c3, false), hs =>
+    simp only [Except.ok.injEq, Prod.mk.injEq] at hs
+    obtain ⟨h1, h2⟩ := hs
+    subst h1 h2
+    exact ⟨none, by simp, fun _ => rfl, fun c hc => by cases hc⟩
+  | .ok (w3, c3, true), hs =>
+    simp only [Except.ok.injEq, Prod.mk.injEq] at hs
+    obtain ⟨h1, h2⟩ := hs
+    subst h1 h2
+    simp only [if_true]
+    rw [pngVal_path conv cfg.po w3 _ (pdfPathOf pt) rfl rfl]
+    refine ⟨_, rfl, ?_, ?_⟩
+    · intro h; cases h
+    · intro c hc
+      simp only [Option.some.injEq] at hc
+      subst hc
+      exact ⟨_, rfl, by rw [hug], rfl, by rw [hut]⟩
+
+/-- **Refinement.**  When the naming stages resolve the plot to the unit `u` with CSV file `pc`, the pipeline
+`ToCSV → MakeFilename → Write → RenderLaTeX → Write → LaTeXToPDF → PDFToPNG` acts on the world exactly as the
+bookkeeping `sepCore` on these names; the yielded value names the image and carries the final `output.changed`. -/
+theorem runPlot_eq_sepCore (conv : Conv C) (cfg : Cfg) (ms : List (MFKey × Tpl)) (tpl : Nat) (w : World C) (pl : Plot)
+    (u : FUnit) (pc : String) (h : plotUnit cfg ms pl = .ok (u, pc)) :
+    ∀ w' oc, sepCore conv cfg.w1 cfg.w2 cfg.lo cfg.po u pc (conv.csvOf pl.data) (conv.texOf tpl [pc]) w = .ok (w', oc) →
+      ∃ ov, runPlot conv cfg ms tpl w pl = .ok (w', ov) ∧
+        (oc = none → ov = none) ∧
+        (∀ c, oc = some c → ∃ v, ov = some v ∧ v.data = .path u.png ∧ v.out.changed = some c ∧ v.out.filepath = some u.tex) := by
+  intro w' oc hs
+  have hft : (plotCtx cfg ms pl).filetype = some "csv" := by
+    unfold plotCtx; rw [mfCall_filetype]
+  have hch : (plotCtx cfg ms pl).changed = none := by
+    unfold plotCtx; rw [mfCall_changed]
+  cases h1 : wmfCore cfg.outdir "output" (plotCtx cfg ms pl).dirname (plotCtx cfg ms pl).filename
+      (plotCtx cfg ms pl).fileext (some "csv") with
+  | error e => simp [plotUnit, h1] at h
+  | ok r1 =>
+    obtain ⟨d1, fn, fe, pc'⟩ := r1
+    cases h2 : wmfCore cfg.outdir "output" (plotCtx cfg ms pl).dirname (some fn) (some "tex") (some "tex") with
+    | error e => simp [plotUnit, h1, h2] at h
+    | ok r2 =>
+      obtain ⟨d2, fn2, fe2, pt⟩ := r2
+      simp [plotUnit, h1, h2] at h
+      obtain ⟨hu, hpc⟩ := h
+      subst hpc hu
+      unfold runPlot memberStage
+      have hv : (mfVal cfg.mf.overwrite ms (toCsvVal conv pl.name pl.data {}) : Val C)
+          = ⟨.text (conv.csvOf pl.data), pl.name, plotCtx cfg ms pl, none⟩ := rfl
+      rw [hv, writeVal_text conv cfg.outdir cfg.w1 w _ (conv.csvOf pl.data) d1 fn fe pc' rfl (by rw [← hft] at h1; exact h1)]
+      simp only [hch]
+      unfold sepCore at hs
+      simp only at hs
+      exact tailStage_eq_downCore conv cfg tpl (writeCore cfg.w1 pc' (conv.csvOf pl.data) w none).1
+        ⟨.path pc', pl.name, { plotCtx cfg ms pl with filename := some fn, fileext := some fe, filepath := some pc', changed := (writeCore cfg.w1 pc' (conv.csvOf pl.data) w none).2 }, none⟩
+        [pc'] d2 fn2 fe2 pt hft rfl h2 _ rfl rfl rfl w' oc hs
+
+
+/-! ## one plot, pipeline level -/
+
+/-- all files of a unit -/
+def FUnit.paths (u : FUnit) : List String := u.csvs ++ [u.tex, u.pdf, u.png]
+
+theorem FUnit.mem_paths {u : FUnit} {q : String} : q ∈ u.paths ↔ q ∈ u.csvs ∨ q = u.tex ∨ q = u.pdf ∨ q = u.png := by
+  simp [FUnit.paths]
+
+theorem UnitInv.congr {conv : Conv C} {u : FUnit} {fs fs' : FS C} (h : UnitInv conv u fs)
+    (heq : ∀ p ∈ u.paths, fs' p = fs p) : UnitInv conv u fs' := by
+  have ht : fs' u.tex = fs u.tex := heq _ (FUnit.mem_paths.mpr (.inr (.inl rfl)))
+  have hp : fs' u.pdf = fs u.pdf := heq _ (FUnit.mem_paths.mpr (.inr (.inr (.inl rfl))))
+  have hg : fs' u.png = fs u.png := heq _ (FUnit.mem_paths.mpr (.inr (.inr (.inr rfl))))
+  have hc : ∀ p ∈ u.csvs, fs' p = fs p := fun p hp => heq p (FUnit.mem_paths.mpr (.inl hp))
+  refine ⟨?_, ?_, ?_⟩
+  · intro tf h1; exact h.texDeps tf (by rw [← ht]; exact h1)
+  · intro pf tf h1 h2 h3
+    rw [depContents_congr hc]
+    exact h.pdfCons pf tf (by rw [← hp]; exact h1) (by rw [← ht]; exact h2) (fun p hp' => by rw [← hc p hp']; exact h3 p hp')
+  · intro gf pf h1 h2; exact h.pngCons gf pf (by rw [← hg]; exact h1) (by rw [← hp]; exact h2)
+
+theorem SourceClosed.congr {u : FUnit} {fs fs' : FS C} (h : SourceClosed u fs)
+    (heq : ∀ p ∈ u.paths, fs' p = fs p) : SourceClosed u fs' := by
+  have ht : fs' u.tex = fs u.tex := heq _ (FUnit.mem_paths.mpr (.inr (.inl rfl)))
+  have hp : fs' u.pdf = fs u.pdf := heq _ (FUnit.mem_paths.mpr (.inr (.inr (.inl rfl))))
+  have hc : ∀ p ∈ u.csvs, fs' p = fs p := fun p hp => heq p (FUnit.mem_paths.mpr (.inl hp))
+  intro h1
+  rw [hp] at h1
+  obtain ⟨h2, h3⟩ := h h1
+  exact ⟨by rw [ht]; exact h2, fun p hp' => by rw [hc p hp']; exact h3 p hp'⟩
+
+theorem UnitFresh.congr {conv : Conv C} {u : FUnit} {fs fs' : FS C} {ecsvs : List C} {etex : C}
+    (h : UnitFresh conv u fs ecsvs etex) (heq : ∀ p ∈ u.paths, fs' p = fs p) : UnitFresh conv u fs' ecsvs etex := by
+  have ht : fs' u.tex = fs u.tex := heq _ (FUnit.mem_paths.mpr (.inr (.inl rfl)))
+  have hp : fs' u.pdf = fs u.pdf := heq _ (FUnit.mem_paths.mpr (.inr (.inr (.inl rfl))))
+  have hg : fs' u.png = fs u.png := heq _ (FUnit.mem_paths.mpr (.inr (.inr (.inr rfl))))
+  have hc : ∀ p ∈ u.csvs, fs' p = fs p := fun p hp => heq p (FUnit.mem_paths.mpr (.inl hp))
+  obtain ⟨h1, h2, h3, h4⟩ := h
+  refine ⟨by rw [depContents_congr hc]; exact h1, ?_, ?_, ?_⟩
+  · unfold HasContent; rw [ht]; exact h2
+  · unfold HasContent; rw [hp]; exact h3
+  · unfold HasContent; rw [hg]; exact h4
+
+/-- the converters' texts name what they are given (`depsOf` reads the names back from a rendered text) -/
+def ConvOK (conv : Conv C) : Prop := ∀ t ps, conv.depsOf (conv.texOf t ps) = ps
+
+/-- what "fresh" means for a plot after a run that started in world `w0`: the four files hold what is produced
+from the current data and template (an `existing_unchanged` Write keeps a source file that existed in `w0`) -/
+def PlotFresh (conv : Conv C) (cfg : Cfg) (tpl : Nat) (w0 : World C) (fs' : FS C) (pl : Plot) (up : FUnit × String) : Prop :=
+  UnitFresh conv up.1 fs' [effective cfg.w1 (w0.fs up.2) (conv.csvOf pl.data)]
+    (effective cfg.w2 (w0.fs up.1.tex) (conv.texOf tpl [up.2]))
+
+theorem plotUnit_csvs {cfg : Cfg} {ms : List (MFKey × Tpl)} {pl : Plot} {up : FUnit × String}
+    (h : plotUnit cfg ms pl = .ok up) : up.1.csvs = [up.2] := by
+  unfold plotUnit at h
+  simp only at h
+  split at h
+  · cases h
+  · split at h
+    · cases h
+    · cases h; rfl
+
+/-- **one plot through the whole pipeline** (all option settings), for a run that starts `SourceClosed` -/
+theorem runPlot_fresh (conv : Conv C) (cfg : Cfg) (ms : List (MFKey × Tpl)) (tpl : Nat) (w : World C) (pl : Plot)
+    (up : FUnit × String) (h : plotUnit cfg ms pl = .ok up) (hok : ConvOK conv)
+    (hd : up.1.Distinct) (hclk : ClockInv w) (hinv : UnitInv conv up.1 w.fs) (hsc : SourceClosed up.1 w.fs) :
+    ∃ w' v, runPlot conv cfg ms tpl w pl = .ok (w', some v) ∧ v.data = .path up.1.png ∧
+      PlotFresh conv cfg tpl w w'.fs pl up ∧
+      (∀ q, q ∉ up.1.paths → w'.fs q = w.fs q) ∧ ClockInv w' ∧ w.clock ≤ w'.clock ∧ UnitInv conv up.1 w'.fs := by
+  obtain ⟨u, pc⟩ := up
+  have hcs : u.csvs = [pc] := plotUnit_csvs h
+  obtain ⟨w', c, hs, hfresh, hframe, hck, hle, hinv'⟩ :=
+    sepCore_fresh conv cfg.w1 cfg.w2 cfg.lo cfg.po u pc (conv.csvOf pl.data) (conv.texOf tpl [pc]) w hcs hd hclk hinv hsc
+      (by rw [hok, hcs])
+  obtain ⟨ov, hr, _, hv⟩ := runPlot_eq_sepCore conv cfg ms tpl w pl u pc h w' (some c) hs
+  obtain ⟨v, hov, hdata, _, _⟩ := hv c rfl
+  subst hov
+  refine ⟨w', v, hr, hdata, hfresh, ?_, hck, hle, hinv'⟩
+  intro q hq
+  rw [FUnit.mem_paths] at hq
+  exact hframe q (fun h => hq (.inl h)) (fun h => hq (.inr (.inl h))) (fun h => hq (.inr (.inr (.inl h))))
+    (fun h => hq (.inr (.inr (.inr h))))
+
+
+/-! ## several plots -/
+
+/-- two units share no file -/
+def FUnit.Disjoint (a b : FUnit) : Prop := ∀ p ∈ a.paths, p ∉ b.paths
+
+/-- the naming stages resolve every plot to the unit paired with it -/
+def Resolves (cfg : Cfg) (ms : List (MFKey × Tpl)) (pus : List (Plot × (FUnit × String))) : Prop :=
+  ∀ x ∈ pus, plotUnit cfg ms x.1 = .ok x.2
+
+/-- the units are well formed: the files of one unit are different, different units share no file -/
+def UnitsOK (us : List (FUnit × String)) : Prop :=
+  (∀ up ∈ us, up.1.Distinct) ∧ us.Pairwise (fun a b => a.1.Disjoint b.1 ∧ b.1.Disjoint a.1)
+
+/-- **several plots as separate values of one flow**, all option settings, for a run that starts `SourceClosed` -/
+theorem runPlots_fresh (conv : Conv C) (cfg : Cfg) (ms : List (MFKey × Tpl)) (tpl : Nat) (hok : ConvOK conv) :
+    ∀ (pus : List (Plot × (FUnit × String))) (w : World C),
+      Resolves cfg ms pus → UnitsOK (pus.map (·.2)) → ClockInv w →
+      (∀ x ∈ pus, UnitInv conv x.2.1 w.fs ∧ SourceClosed x.2.1 w.fs) →
+      ∃ w' vs, runPlots conv cfg ms tpl w (pus.map (·.1)) = .ok (w', vs) ∧
+        vs.map (fun v => dataPath v) = pus.map (fun x => x.2.1.png) ∧
+        (∀ x ∈ pus, PlotFresh conv cfg tpl w w'.fs x.1 x.2) ∧
+        (∀ q, (∀ x ∈ pus, q ∉ x.2.1.paths) → w'.fs q = w.fs q) ∧ ClockInv w' ∧ w.clock ≤ w'.clock ∧
+        (∀ x ∈ pus, UnitInv conv x.2.1 w'.fs) := by
+  intro pus
+  induction pus with
+  | nil =>
+    intro w _ _ hclk _
+    refine ⟨w, [], rfl, rfl, ?_, fun _ _ => rfl, hclk, Nat.le_refl _, ?_⟩
+    · intro x h; cases h
+    · intro x h; cases h
+  | cons x pus ih =>
+    intro w hres hu hclk hall
+    obtain ⟨hdist, hpw⟩ := hu
+    rw [List.map_cons, List.pairwise_cons] at hpw
+    obtain ⟨hdisj, hpw'⟩ := hpw
+    have hdisj' : ∀ y ∈ pus, x.2.1.Disjoint y.2.1 ∧ y.2.1.Disjoint x.2.1 :=
+      fun y hy => hdisj y.2 (List.mem_map_of_mem hy)
+    obtain ⟨hinv, hsc⟩ := hall x (by simp)
+    obtain ⟨w1, v, hr, hdata, hfresh, hframe, hck1, hle1, hinv1⟩ :=
+      runPlot_fresh conv cfg ms tpl w x.1 x.2 (hres x (by simp)) hok (hdist x.2 (by simp)) hclk hinv hsc
+    -- the other units are untouched by the first plot
+    have hother : ∀ y ∈ pus, ∀ p ∈ y.2.1.paths, w1.fs p = w.fs p := by
+      intro y hy p hp
+      exact hframe p (fun h => (hdisj' y hy).1 p h hp)
+    obtain ⟨w', vs, hrs, hdatas, hfreshs, hframes, hck', hle', hinvs⟩ :=
+      ih w1 (fun y hy => hres y (by simp [hy])) ⟨fun up' h => hdist up' (by simp at h ⊢; exact .inr h), hpw'⟩ hck1
+        (fun y hy => ⟨(hall y (by simp [hy])).1.congr (hother y hy), (hall y (by simp [hy])).2.congr (hother y hy)⟩)
+    -- the first unit is untouched by the other plots
+    have hfirst : ∀ p ∈ x.2.1.paths, w'.fs p = w1.fs p := by
+      intro p hp
+      exact hframes p (fun y hy h => (hdisj' y hy).1 p hp h)
+    refine ⟨w', v :: vs, ?_, ?_, ?_, ?_, hck', Nat.le_trans hle1 hle', ?_⟩
+    · simp only [List.map_cons]; unfold runPlots; rw [hr]; simp only; rw [hrs]; rfl
+    · rw [List.map_cons, List.map_cons, hdatas]; simp only [dataPath, hdata]
+    · intro y hy
+      simp only [List.mem_cons] at hy
+      rcases hy with h | h
+      · subst h; exact hfresh.congr hfirst
+      · -- freshness of the others was stated relative to `w1`, which agrees with `w` on their files
+        have hh := hfreshs y h
+        unfold PlotFresh at hh ⊢
+        have hcs := plotUnit_csvs (hres y (by simp [h]))
+        have e1 : w1.fs y.2.2 = w.fs y.2.2 := hother y h _ (FUnit.mem_paths.mpr (.inl (by rw [hcs]; simp)))
+        have e2 : w1.fs y.2.1.tex = w.fs y.2.1.tex := hother y h _ (FUnit.mem_paths.mpr (.inr (.inl rfl)))
+        rw [← e1, ← e2]; exact hh
+    · intro q hq
+      rw [hframes q (fun y h => hq y (by simp [h])), hframe q (hq x (by simp))]
+    · intro y hy
+      simp only [List.mem_cons] at hy
+      rcases hy with h | h
+      · subst h; exact hinv1.congr hfirst
+      · exact hinvs y h
+
+
+/-! ## runs and histories -/
+
+/-- a run of the separate layout whose plots resolve to the (well-formed) units paired with them -/
+structure RunOK (r : RunSpec) (pus : List (Plot × (FUnit × String))) : Prop where
+  layout : r.layout = .separate
+  plots : r.plots = pus.map (·.1)
+  resolves : ∃ ms, mfInit r.cfg.mf = .ok ms ∧ Resolves r.cfg ms pus
+  units : UnitsOK (pus.map (·.2))
+
+/-- invariant of the world between the steps of a history over the units `us` -/
+def WInv (conv : Conv C) (us : List (FUnit × String)) (w : World C) : Prop :=
+  ClockInv w ∧ ∀ up ∈ us, UnitInv conv up.1 w.fs
+
+/-- every plot of the run is fresh in `fs'` (the run started in `w0`) -/
+def RunFresh (conv : Conv C) (r : RunSpec) (pus : List (Plot × (FUnit × String))) (w0 : World C) (fs' : FS C) : Prop :=
+  ∀ x ∈ pus, PlotFresh conv r.cfg r.tpl w0 fs' x.1 x.2
+
+/-- **`run_fresh_partial`.**  For all converters, all option settings (modes of both `Write`s, `overwrite` of both
+converters, any `MakeFilename` arguments that resolve to distinct files), all numbers of plots, all data and
+templates and all pre-states that satisfy the invariant: a run that starts `SourceClosed` (every existing pdf has
+its `.tex` and CSV files on disk) succeeds, yields one value per plot naming its image, leaves every file of every
+plot with exactly the content produced from the current data and template, touches no other file, and
+re-establishes the invariant. -/
+theorem run_fresh_partial (conv : Conv C) (hok : ConvOK conv) (r : RunSpec) (pus : List (Plot × (FUnit × String)))
+    (w : World C) (hr : RunOK r pus) (hinv : WInv conv (pus.map (·.2)) w)
+    (hsc : ∀ up ∈ pus.map (·.2), SourceClosed up.1 w.fs) :
+    ∃ w' vs, runSpec conv w r = .ok (w', vs) ∧
+      vs.map (fun v => dataPath v) = pus.map (fun x => x.2.1.png) ∧
+      RunFresh conv r pus w w'.fs ∧
+      (∀ q, (∀ x ∈ pus, q ∉ x.2.1.paths) → w'.fs q = w.fs q) ∧
+      WInv conv (pus.map (·.2)) w' := by
+  obtain ⟨hl, hp, ⟨ms, hms, hres⟩, hu⟩ := hr
+  obtain ⟨hclk, hinvs⟩ := hinv
+  obtain ⟨w', vs, hrun, hdata, hfresh, hframe, hck, _, hinv'⟩ :=
+    runPlots_fresh conv r.cfg ms r.tpl hok pus w hres hu hclk
+      (fun x hx => ⟨hinvs x.2 (List.mem_map_of_mem hx), hsc x.2 (List.mem_map_of_mem hx)⟩)
+  refine ⟨w', vs, ?_, hdata, hfresh, hframe, hck, ?_⟩
+  · unfold runSpec runSeparate; rw [hl]; simp only [hms, hp]; exact hrun
+  · intro up hup
+    obtain ⟨x, hx, rfl⟩ := List.mem_map.mp hup
+    exact hinv' x hx
+
+theorem ClockInv.del {w : World C} (h : ClockInv w) (ps : List String) : ClockInv { w with fs := w.fs.del ps } := by
+  intro p f hp
+  simp only [FS.del] at hp
+  split at hp
+  · cases hp
+  · exact h p f hp
+
+theorem WInv.del {conv : Conv C} {us : List (FUnit × String)} {w : World C} (h : WInv conv us w) (ps : List String) :
+    WInv conv us (step conv w (.del ps)) :=
+  ⟨h.1.del ps, fun up hup => (h.2 up hup).del ps⟩
+
+/-- along the history every run resolves to the same units `us` and starts `SourceClosed` -/
+def SourceClosedHist (conv : Conv C) (us : List (FUnit × String)) : World C → List HStep → Prop
+  | _, [] => True
+  | w, .del ps :: rest => SourceClosedHist conv us (step conv w (.del ps)) rest
+  | w, .run r :: rest =>
+    (∃ pus, RunOK r pus ∧ pus.map (·.2) = us) ∧ (∀ up ∈ us, SourceClosed up.1 w.fs) ∧
+    SourceClosedHist conv us (step conv w (.run r)) rest
+
+/-- after every run of the history the files of all its plots are fresh -/
+def FreshHist (conv : Conv C) : World C → List HStep → Prop
+  | _, [] => True
+  | w, .del ps :: rest => FreshHist conv (step conv w (.del ps)) rest
+  | w, .run r :: rest =>
+    (∃ pus vs, RunOK r pus ∧ runSpec conv w r = .ok (step conv w (.run r), vs) ∧
+      vs.map (fun v => dataPath v) = pus.map (fun x => x.2.1.png) ∧
+      RunFresh conv r pus w (step conv w (.run r)).fs) ∧
+    FreshHist conv (step conv w (.run r)) rest
+
+/-- **`history_fresh_partial`.**  For every history of runs (changing data, templates and option settings) and
+removals of arbitrary sets of files in which no run starts with a source file missing while its pdf exists: after
+every run all files named by the yielded values exist with exactly the content produced from the current data. -/
+theorem history_fresh_partial (conv : Conv C) (hok : ConvOK conv) (us : List (FUnit × String)) :
+    ∀ (h : List HStep) (w : World C), WInv conv us w → SourceClosedHist conv us w h → FreshHist conv w h := by
+  intro h
+  induction h with
+  | nil => intro _ _ _; trivial
+  | cons s rest ih =>
+    intro w hinv hsc
+    cases s with
+    | del ps => exact ih _ (hinv.del ps) hsc
+    | run r =>
+      obtain ⟨⟨pus, hr, hus⟩, hscw, hrest⟩ := hsc
+      subst hus
+      obtain ⟨w', vs, hrun, hdata, hfresh, _, hinv'⟩ := run_fresh_partial conv hok r pus w hr hinv hscw
+      have hstep : step conv w (.run r) = w' := by simp only [step, hrun]
+      refine ⟨⟨pus, vs, hr, by rw [hstep]; exact hrun, hdata, by rw [hstep]; exact hfresh⟩, ?_⟩
+      rw [hstep] at hrest ⊢
+      exact ih w' hinv' hrest
+
+
+/-! ## the unrestricted statements are false: the known finding -/
+
+/-- every run of the history resolves to the units `us` (nothing is required about missing files) -/
+def ResolvesHist (us : List (FUnit × String)) : List HStep → Prop
+  | [] => True
+  | .del _ :: rest => ResolvesHist us rest
+  | .run r :: rest => (∃ pus, RunOK r pus ∧ pus.map (·.2) = us) ∧ ResolvesHist us rest
+
+/-- **The full statement of the property about runs** (`run_fresh_partial` without `SourceClosed`).  It is false:
+`run_fresh_full_fails`. -/
+def run_fresh_full : Prop :=
+  ∀ (C : Type) [DecidableEq C] (conv : Conv C), ConvOK conv →
+    ∀ (r : RunSpec) (pus : List (Plot × (FUnit × String))) (w : World C),
+      RunOK r pus → WInv conv (pus.map (·.2)) w →
+      ∃ w' vs, runSpec conv w r = .ok (w', vs) ∧ RunFresh conv r pus w w'.fs
+
+/-- **The full statement of the property about histories** (`history_fresh_partial` for *all* histories of runs
+and removals of files).  It is false: `history_fresh_full_fails`. -/
+def history_fresh_full : Prop :=
+  ∀ (C : Type) [DecidableEq C] (conv : Conv C), ConvOK conv →
+    ∀ (us : List (FUnit × String)) (h : List HStep) (w : World C),
+      WInv conv us w → ResolvesHist us h → FreshHist conv w h
+
+namespace Witness
+
+def cfg : Cfg :=
+  { outdir := "out", w1 := .normal, w2 := .normal, lo := false, po := false,
+    mf := { filename := some [.var] }, gmf := { filename := some [.lit "combined"] } }
+
+def ms : List (MFKey × Tpl) := [(.filename, [.var])]
+
+/-- a run of the standard pipeline on one plot `p0` with data `d` -/
+def run (d : Nat) : RunSpec := { cfg := cfg, layout := .separate, tpl := 1, plots := [⟨some "p0", d⟩] }
+
+def unit : FUnit := ⟨["out/p0.csv"], "out/p0.tex", "out/p0.pdf", "out/p0.png"⟩
+
+/-- run with data 1; remove the CSV file; run with data 2 -/
+def history : List HStep := [.run (run 1), .del ["out/p0.csv"], .run (run 2)]
+
+/-- the world in which the last run starts -/
+def before : World Content := exec stubConv World.init [.run (run 1), .del ["out/p0.csv"]]
+
+end Witness
+
+deriving instance DecidableEq for FUnit
+deriving instance DecidableEq for Except
+
+theorem witness_mfInit : mfInit Witness.cfg.mf = .ok Witness.ms := by decide +kernel
+
+theorem witness_unit (d : Nat) : plotUnit Witness.cfg Witness.ms ⟨some "p0", d⟩ = .ok (Witness.unit, "out/p0.csv") := by
+  have : plotUnit Witness.cfg Witness.ms ⟨some "p0", 0⟩ = .ok (Witness.unit, "out/p0.csv") := by decide +kernel
+  exact this
+
+theorem witness_runOK (d : Nat) : RunOK (Witness.run d) [(⟨some "p0", d⟩, (Witness.unit, "out/p0.csv"))] where
+  layout := rfl
+  plots := rfl
+  resolves := ⟨Witness.ms, witness_mfInit, fun x hx => by
+    simp only [List.mem_singleton] at hx; subst hx; exact witness_unit d⟩
+  units := ⟨fun up hup => by
+    simp only [List.map_cons, List.map_nil, List.mem_singleton] at hup; subst hup
+    unfold FUnit.Distinct Witness.unit; decide +kernel, by simp⟩
+
+theorem stubConv_ok : ConvOK stubConv := fun _ _ => rfl
+
+theorem effective_normal (old : Option (File C)) (new : C) : effective .normal old new = new := by
+  cases old <;> rfl
+
+/-- the witness: after `run 1; remove out/p0.csv; run 2` the pdf is the one rendered from data 1 -/
+theorem witness_stale :
+    ((exec stubConv World.init Witness.history).fs "out/p0.pdf").map (·.content)
+      = some (.pdf (.tex 1 ["out/p0.csv"]) (.cons (.csv 1) .nil)) := by decide +kernel
+
+theorem witness_csv_current :
+    ((exec stubConv World.init Witness.history).fs "out/p0.csv").map (·.content) = some (.csv 2) := by decide +kernel
+
+/-- a pair list whose plots are `[pl]` and whose units resolve is `[(pl, up)]` -/
+theorem runOK_singleton {r : RunSpec} {pus : List (Plot × (FUnit × String))} {pl : Plot} {up : FUnit × String}
+    {ms : List (MFKey × Tpl)} (h : RunOK r pus) (hp : r.plots = [pl]) (hms : mfInit r.cfg.mf = .ok ms)
+    (hu : plotUnit r.cfg ms pl = .ok up) : pus = [(pl, up)] := by
+  obtain ⟨_, hplots, ⟨ms', hms', hres⟩, _⟩ := h
+  rw [hms] at hms'; cases hms'
+  rw [hp] at hplots
+  match pus, hplots, hres with
+  | [x], hplots, hres =>
+    simp only [List.map_cons, List.map_nil, List.cons.injEq, and_true] at hplots
+    have := hres x (by simp)
+    rw [← hplots, hu] at this
+    cases this
+    cases x; simp_all
+
+/-- **`history_fresh_full_fails`: the full statement is false.**  Witness (the replay of the known finding): the
+standard pipeline on one plot; run with data 1, remove `out/p0.csv`, run with data 2.  The second run re-creates
+the CSV file, `Write` leaves `output.changed` unset, the second `Write` turns "unset" into `False`, both converters
+skip: `out/p0.pdf` still shows data 1. -/
+theorem history_fresh_full_fails : ¬ history_fresh_full := by
+  intro hfull
+  have h := hfull Content stubConv stubConv_ok [(Witness.unit, "out/p0.csv")] Witness.history World.init
+    ⟨fun p f hp => by simp [World.init, FS.empty] at hp, fun up _ => UnitInv.empty _ _⟩
+    ⟨⟨_, witness_runOK 1, rfl⟩, ⟨_, witness_runOK 2, rfl⟩, trivial⟩
+  -- unfold to the last run
+  obtain ⟨_, h2⟩ := h
+  obtain ⟨⟨pus, vs, hr, _, _, hfresh⟩, _⟩ := h2
+  have hpus := runOK_singleton hr rfl witness_mfInit (witness_unit 2)
+  subst hpus
+  have hf := hfresh _ (List.mem_singleton.mpr rfl)
+  obtain ⟨_, _, ⟨pf, hpf, hpc⟩, _⟩ := hf
+  have hst := witness_stale
+  have hfs : (exec stubConv World.init Witness.history).fs "out/p0.pdf" = some pf := hpf
+  rw [hfs] at hst
+  simp only [Option.map_some, Option.some.injEq] at hst
+  rw [hst] at hpc
+  simp only [effective_normal] at hpc
+  exact absurd hpc (by decide)
+
+
+theorem WInv.exec {conv : Conv C} (hok : ConvOK conv) {us : List (FUnit × String)} :
+    ∀ (h : List HStep) (w : World C), WInv conv us w → SourceClosedHist conv us w h → WInv conv us (exec conv w h) := by
+  intro h
+  induction h with
+  | nil => intro w hinv _; exact hinv
+  | cons s rest ih =>
+    intro w hinv hsc
+    cases s with
+    | del ps => exact ih _ (hinv.del ps) hsc
+    | run r =>
+      obtain ⟨⟨pus, hr, hus⟩, hscw, hrest⟩ := hsc
+      subst hus
+      obtain ⟨w', vs, hrun, _, _, _, hinv'⟩ := run_fresh_partial conv hok r pus w hr hinv hscw
+      have hstep : step conv w (.run r) = w' := by simp only [step, hrun]
+      unfold Lena.C19.exec
+      rw [List.foldl_cons, hstep]
+      rw [hstep] at hrest
+      exact ih w' hinv' hrest
+
+/-- **`run_fresh_full_fails`**: the full statement about one run is false — the world reached by `run 1; remove
+out/p0.csv` satisfies the invariant, and the run with data 2 from it leaves the pdf stale. -/
+theorem run_fresh_full_fails : ¬ run_fresh_full := by
+  intro hfull
+  have hinit : WInv stubConv [(Witness.unit, "out/p0.csv")] (World.init : World Content) :=
+    ⟨fun p f hp => by simp [World.init, FS.empty] at hp, fun up _ => UnitInv.empty _ _⟩
+  have hinv : WInv stubConv [(Witness.unit, "out/p0.csv")] Witness.before :=
+    WInv.exec stubConv_ok _ _ hinit
+      ⟨⟨_, witness_runOK 1, rfl⟩, fun up _ h => by simp [World.init, FS.empty] at h, trivial⟩
+  obtain ⟨w', vs, hrun, hfresh⟩ := hfull Content stubConv stubConv_ok (Witness.run 2) _ Witness.before (witness_runOK 2) hinv
+  have hw' : exec stubConv World.init Witness.history = w' := by
+    have : exec stubConv World.init Witness.history = step stubConv Witness.before (.run (Witness.run 2)) := rfl
+    rw [this]; simp only [step, hrun]
+  have hf := hfresh _ (List.mem_singleton.mpr rfl)
+  obtain ⟨_, _, ⟨pf, hpf, hpc⟩, _⟩ := hf
+  have hst := witness_stale
+  rw [hw'] at hst
+  have hfs : w'.fs "out/p0.pdf" = some pf := hpf
+  rw [hfs] at hst
+  simp only [Option.map_some, Option.some.injEq] at hst
+  rw [hst] at hpc
+  simp only [effective_normal] at hpc
+  exact absurd hpc (by decide)
+
+
+/-! ## nothing unchanged is redone -/
+
+/-- the files of a plot are *settled* for the inputs of a run: the two source files exist and hold the current
+texts (or the `Write` that owns them does not look: `existing_unchanged`), the pdf and the image exist -/
+def Settled (conv : Conv C) (cfg : Cfg) (tpl : Nat) (fs : FS C) (pl : Plot) (up : FUnit × String) : Prop :=
+  (∃ f, fs up.2 = some f ∧ (cfg.w1 = .existingUnchanged ∨ f.content = conv.csvOf pl.data)) ∧
+  (∃ f, fs up.1.tex = some f ∧ (cfg.w2 = .existingUnchanged ∨ f.content = conv.texOf tpl [up.2])) ∧
+  (fs up.1.pdf).isSome ∧ (fs up.1.png).isSome
+
+theorem writeCore_noop (mode : WMode) (p : String) (c : C) (w : World C) (chg : Option Bool) (f : File C)
+    (hf : w.fs p = some f) (hm : mode ≠ .overwrite) (hc : mode = .existingUnchanged ∨ f.content = c) :
+    writeCore mode p c w chg = (w, some (chg.getD false)) := by
+  unfold writeCore
+  rw [hf]
+  cases mode with
+  | overwrite => exact absurd rfl hm
+  | existingUnchanged => rfl
+  | normal =>
+    rcases hc with h | h
+    · cases h
+    · simp [h]
+
+/-- a settled plot is left alone: no file written, no converter launched, `output.changed = False` -/
+theorem sepCore_noop (conv : Conv C) (m1 m2 : WMode) (u : FUnit) (pc : String) (ncsv ntex : C) (w : World C)
+    (fc ft : File C) (hm1 : m1 ≠ .overwrite) (hm2 : m2 ≠ .overwrite)
+    (hc : w.fs pc = some fc) (hcc : m1 = .existingUnchanged ∨ fc.content = ncsv)
+    (ht : w.fs u.tex = some ft) (htc : m2 = .existingUnchanged ∨ ft.content = ntex)
+    (hp : (w.fs u.pdf).isSome) (hg : (w.fs u.png).isSome) :
+    sepCore conv m1 m2 false false u pc ncsv ntex w = .ok (w, some false) := by
+  unfold sepCore downCore
+  rw [writeCore_noop m1 pc ncsv w none fc hc hm1 hcc]
+  simp only [Option.getD_none]
+  rw [writeCore_noop m2 u.tex ntex w (some false) ft ht hm2 htc]
+  simp only [Option.getD_some]
+  unfold convCore
+  rw [latexCore_skip conv u.tex u.pdf w hp]
+  simp only
+  rw [pngCore_skip conv u.pdf u.png w hg]
+
+theorem runPlots_noop (conv : Conv C) (cfg : Cfg) (ms : List (MFKey × Tpl)) (tpl : Nat)
+    (hm1 : cfg.w1 ≠ .overwrite) (hm2 : cfg.w2 ≠ .overwrite) (hlo : cfg.lo = false) (hpo : cfg.po = false) :
+    ∀ (pus : List (Plot × (FUnit × String))) (w : World C),
+      Resolves cfg ms pus → (∀ x ∈ pus, Settled conv cfg tpl w.fs x.1 x.2) →
+      ∃ vs, runPlots conv cfg ms tpl w (pus.map (·.1)) = .ok (w, vs) ∧
+        vs.map (fun v => dataPath v) = pus.map (fun x => x.2.1.png) ∧ ∀ v ∈ vs, v.out.changed = some false := by
+  intro pus
+  induction pus with
+  | nil => intro w _ _; exact ⟨[], rfl, rfl, fun _ h => by cases h⟩
+  | cons x pus ih =>
+    intro w hres hall
+    obtain ⟨⟨fc, hc, hcc⟩, ⟨ft, ht, htc⟩, hp, hg⟩ := hall x (by simp)
+    have hs : sepCore conv cfg.w1 cfg.w2 cfg.lo cfg.po x.2.1 x.2.2 (conv.csvOf x.1.data) (conv.texOf tpl [x.2.2]) w
+        = .ok (w, some false) := by
+      rw [hlo, hpo]
+      exact sepCore_noop conv cfg.w1 cfg.w2 x.2.1 x.2.2 (conv.csvOf x.1.data) (conv.texOf tpl [x.2.2]) w fc ft
+        hm1 hm2 hc hcc ht htc hp hg
+    obtain ⟨ov, hr, _, hv⟩ := runPlot_eq_sepCore conv cfg ms tpl w x.1 x.2.1 x.2.2 (hres x (by simp)) w (some false) hs
+    obtain ⟨v, hov, hdata, hchg, _⟩ := hv false rfl
+    subst hov
+    obtain ⟨vs, hrs, hdatas, hchgs⟩ := ih w (fun y hy => hres y (by simp [hy])) (fun y hy => hall y (by simp [hy]))
+    refine ⟨v :: vs, ?_, ?_, ?_⟩
+    · simp only [List.map_cons]; unfold runPlots; rw [hr]; simp only; rw [hrs]; rfl
+    · rw [List.map_cons, List.map_cons, hdatas]; simp only [dataPath, hdata]
+    · intro v' hv'
+      simp only [List.mem_cons] at hv'
+      rcases hv' with h | h
+      · subst h; exact hchg
+      · exact hchgs v' h
+
+theorem effective_settled (mode : WMode) (old : Option (File C)) (new : C) (f : File C) (hm : mode ≠ .overwrite)
+    (hf : f.content = effective mode old new) : mode = .existingUnchanged ∨ f.content = new := by
+  cases mode with
+  | overwrite => exact absurd rfl hm
+  | existingUnchanged => exact .inl rfl
+  | normal => right; rw [hf]; exact effective_normal old new
+
+theorem PlotFresh.settled {conv : Conv C} {cfg : Cfg} {tpl : Nat} {w0 : World C} {fs' : FS C} {pl : Plot}
+    {up : FUnit × String} (h : PlotFresh conv cfg tpl w0 fs' pl up) (hcs : up.1.csvs = [up.2])
+    (hm1 : cfg.w1 ≠ .overwrite) (hm2 : cfg.w2 ≠ .overwrite) : Settled conv cfg tpl fs' pl up := by
+  obtain ⟨hc, ⟨tf, htf, htc⟩, ⟨pf, hpf, _⟩, ⟨gf, hgf, _⟩⟩ := h
+  rw [hcs] at hc
+  simp only [depContents, List.map_cons, List.map_nil, List.cons.injEq, and_true] at hc
+  cases hcf : fs' up.2 with
+  | none => rw [hcf] at hc; cases hc
+  | some cf =>
+    rw [hcf] at hc
+    simp only [Option.map_some, Option.some.injEq] at hc
+    exact ⟨⟨cf, hcf, effective_settled _ _ _ cf hm1 hc⟩, ⟨tf, htf, effective_settled _ _ _ tf hm2 htc⟩,
+      by simp [hpf], by simp [hgf]⟩
+
+/-- **`idle_run_is_noop`.**  For every run that starts `SourceClosed` in a world satisfying the invariant, with any
+number of plots, any data and template, and any option setting without `overwrite`: running the same pipeline
+again on the same inputs with nothing deleted leaves the world *identical* — no file is written, no converter is
+launched (the log and the clock do not move) — and every yielded value has `output.changed = False`. -/
+theorem idle_run_is_noop (conv : Conv C) (hok : ConvOK conv) (r : RunSpec) (pus : List (Plot × (FUnit × String)))
+    (w : World C) (hr : RunOK r pus) (hinv : WInv conv (pus.map (·.2)) w)
+    (hsc : ∀ up ∈ pus.map (·.2), SourceClosed up.1 w.fs)
+    (hm1 : r.cfg.w1 ≠ .overwrite) (hm2 : r.cfg.w2 ≠ .overwrite) (hlo : r.cfg.lo = false) (hpo : r.cfg.po = false) :
+    ∃ w' vs vs', runSpec conv w r = .ok (w', vs) ∧ runSpec conv w' r = .ok (w', vs') ∧
+      vs'.map (fun v => dataPath v) = pus.map (fun x => x.2.1.png) ∧ ∀ v ∈ vs', v.out.changed = some false := by
+  obtain ⟨w', vs, hrun, _, hfresh, _, _⟩ := run_fresh_partial conv hok r pus w hr hinv hsc
+  obtain ⟨hl, hp, ⟨ms, hms, hres⟩, hu⟩ := hr
+  obtain ⟨vs', hrun', hdata', hchg'⟩ := runPlots_noop conv r.cfg ms r.tpl hm1 hm2 hlo hpo pus w' hres
+    (fun x hx => (hfresh x hx).settled (plotUnit_csvs (hres x hx)) hm1 hm2)
+  refine ⟨w', vs, vs', hrun, ?_, hdata', hchg'⟩
+  unfold runSpec runSeparate; rw [hl]; simp only [hms, hp]; exact hrun'
+
+/-- **nothing unchanged is redone**, in general: whenever all plots of a run are settled (whatever the history
+that led there) and no `overwrite` option is set, the run leaves the world identical. -/
+theorem settled_run_is_noop (conv : Conv C) (r : RunSpec) (pus : List (Plot × (FUnit × String))) (w : World C)
+    (hr : RunOK r pus) (hset : ∀ x ∈ pus, Settled conv r.cfg r.tpl w.fs x.1 x.2)
+    (hm1 : r.cfg.w1 ≠ .overwrite) (hm2 : r.cfg.w2 ≠ .overwrite) (hlo : r.cfg.lo = false) (hpo : r.cfg.po = false) :
+    ∃ vs, runSpec conv w r = .ok (w, vs) ∧ ∀ v ∈ vs, v.out.changed = some false := by
+  obtain ⟨hl, hp, ⟨ms, hms, hres⟩, _⟩ := hr
+  obtain ⟨vs, hrun, _, hchg⟩ := runPlots_noop conv r.cfg ms r.tpl hm1 hm2 hlo hpo pus w hres hset
+  refine ⟨vs, ?_, hchg⟩
+  unfold runSpec runSeparate; rw [hl]; simp only [hms, hp]; exact hrun
+
+
+/-! ## `output.changed` is true whenever a file's content changed and stays true downstream -/
+
+/-- `Write` never turns `True` into anything else (all modes, all states of the file) -/
+theorem writeCore_sticky (mode : WMode) (p : String) (c : C) (w : World C) :
+    (writeCore mode p c w (some true)).2 = some true := by
+  unfold writeCore
+  cases w.fs p with
+  | none => rfl
+  | some f => cases mode <;> simp only [Option.getD_some] <;> (try split) <;> rfl
+
+/-- `Write`: if the content of an existing file changed, `output.changed` is true -/
+theorem writeCore_changed_content (mode : WMode) (p : String) (c : C) (w : World C) (chg : Option Bool) (f f' : File C)
+    (hf : w.fs p = some f) (hf' : (writeCore mode p c w chg).1.fs p = some f') (hne : f'.content ≠ f.content) :
+    (writeCore mode p c w chg).2 = some true := by
+  rcases writeCore_cases mode p c w chg with h | ⟨heq, _⟩ | ⟨hnone, _⟩
+  · exact h
+  · rw [heq] at hf'; rw [hf] at hf'; cases hf'; exact absurd rfl hne
+  · rw [hnone] at hf; cases hf
+
+/-- `LaTeXToPDF`: an incoming `True` always launches the command and stays `True` -/
+theorem latexCore_sticky (conv : Conv C) (lo : Bool) (texP pdfP : String) (w : World C) :
+    ∃ w' y, latexCore conv lo texP pdfP w (some true) = .ok (w', true, y) ∧ Event.latex texP ∈ w'.log := by
+  cases ht : w.fs texP with
+  | none =>
+    refine ⟨w.note (.latex texP), false, ?_, by simp [World.note]⟩
+    unfold latexCore; simp [ht]
+  | some tf =>
+    exact ⟨_, true, latexCore_launch conv lo texP pdfP w (some true) tf ht (.inl rfl), by simp [World.put]⟩
+
+/-- `PDFToPNG`: an incoming `True` always launches the command and stays `True` -/
+theorem pngCore_sticky (conv : Conv C) (po : Bool) (pdfP pngP : String) (w : World C) :
+    (pngCore conv po pdfP pngP w (some true)).2 = true ∧
+      Event.topng pdfP ∈ (pngCore conv po pdfP pngP w (some true)).1.log ∧
+      ∀ e ∈ w.log, e ∈ (pngCore conv po pdfP pngP w (some true)).1.log := by
+  unfold pngCore
+  cases w.fs pdfP <;> simp [World.note, World.put] <;> intro e he <;> exact .inl he
+
+/-- **`changed_sticky`.**  For every option setting and every state of the files: if the value that reaches the
+second `Write` carries `output.changed = True` (the first `Write` rewrote the CSV file), then the `.tex` stage,
+the pdf stage and the image stage all hand on `True`: the LaTeX command and `pdftoppm` are launched and the
+yielded value (if the command succeeds) has `output.changed = True`. -/
+theorem changed_sticky (conv : Conv C) (m2 : WMode) (lo po : Bool) (u : FUnit) (ntex : C) (w : World C) :
+    ∃ w' oc, downCore conv m2 lo po u ntex w (some true) = .ok (w', oc) ∧ (oc = none ∨ oc = some true) ∧
+      Event.latex u.tex ∈ w'.log ∧ (oc = some true → Event.topng u.pdf ∈ w'.log) := by
+  unfold downCore
+  simp only
+  rw [writeCore_sticky m2 u.tex ntex w]
+  unfold convCore
+  obtain ⟨w3, y, hl, hlog⟩ := latexCore_sticky conv lo u.tex u.pdf (writeCore m2 u.tex ntex w (some true)).1
+  rw [hl]
+  cases y with
+  | false => exact ⟨_, _, rfl, .inl rfl, hlog, fun h => by cases h⟩
+  | true =>
+    have hp := pngCore_sticky conv po u.pdf u.png w3
+    exact ⟨_, _, rfl, .inr (by rw [hp.1]), hp.2.2 _ hlog, fun _ => hp.2.1⟩
+
+/-- the first `Write`: a rewritten CSV file (its content changed) makes the whole plot `changed`: the pdf and the
+image are regenerated and the yielded value says `True` -/
+theorem changed_sticky_plot (conv : Conv C) (m1 m2 : WMode) (lo po : Bool) (u : FUnit) (pc : String) (ncsv ntex : C)
+    (w : World C) (f f' : File C) (hf : w.fs pc = some f)
+    (hf' : (writeCore m1 pc ncsv w none).1.fs pc = some f') (hne : f'.content ≠ f.content) :
+    ∃ w' oc, sepCore conv m1 m2 lo po u pc ncsv ntex w = .ok (w', oc) ∧ (oc = none ∨ oc = some true) ∧
+      Event.latex u.tex ∈ w'.log ∧ (oc = some true → Event.topng u.pdf ∈ w'.log) := by
+  unfold sepCore
+  simp only
+  rw [writeCore_changed_content m1 pc ncsv w none f f' hf hf' hne]
+  exact changed_sticky conv m2 lo po u ntex _
+
+/-- the mechanism of the known finding: a file that did **not** exist is created and `output.changed` is left as
+it came (`tests/output/test_write.py::test_write_writes` pins this) -/
+theorem writeCore_created_leaves_changed (mode : WMode) (p : String) (c : C) (w : World C) (chg : Option Bool)
+    (h : w.fs p = none) : (writeCore mode p c w chg).2 = chg := by
+  unfold writeCore; rw [h]
+
+
+/-! ## `MakeFilename` and `Write._make_filename`: the naming rules -/
+
+theorem mfStep_keeps (name : Option String) (o : OutCtx) (m : MFKey × Tpl) :
+    (o.filename.isSome → (mfStep false name o m).1.filename = o.filename) ∧
+    (o.dirname.isSome → (mfStep false name o m).1.dirname = o.dirname) ∧
+    (o.fileext.isSome → (mfStep false name o m).1.fileext = o.fileext) := by
+  obtain ⟨k, t⟩ := m
+  refine ⟨?_, ?_, ?_⟩ <;> intro h <;> cases k <;> simp only [mfStep, h, Bool.not_false, Bool.and_self, Bool.false_and,
+    Bool.true_and, if_true] <;> (repeat' split) <;> first | rfl | simp_all
+
+theorem mfCall_foldl_keeps (name : Option String) (ms : List (MFKey × Tpl)) :
+    ∀ (acc : OutCtx × Bool),
+      let r := ms.foldl (fun acc m => let r := mfStep false name acc.1 m; (r.1, acc.2 || r.2)) acc
+      (acc.1.filename.isSome → r.1.filename = acc.1.filename) ∧
+      (acc.1.dirname.isSome → r.1.dirname = acc.1.dirname) ∧
+      (acc.1.fileext.isSome → r.1.fileext = acc.1.fileext) := by
+  induction ms with
+  | nil => intro acc; exact ⟨fun _ => rfl, fun _ => rfl, fun _ => rfl⟩
+  | cons m rest ih =>
+    intro acc
+    simp only [List.foldl_cons]
+    obtain ⟨k1, k2, k3⟩ := mfStep_keeps name acc.1 m
+    obtain ⟨i1, i2, i3⟩ := ih ((mfStep false name acc.1 m).1, acc.2 || (mfStep false name acc.1 m).2)
+    simp only at i1 i2 i3
+    refine ⟨fun h => ?_, fun h => ?_, fun h => ?_⟩
+    · rw [i1 (by rw [k1 h]; exact h), k1 h]
+    · rw [i2 (by rw [k2 h]; exact h), k2 h]
+    · rw [i3 (by rw [k3 h]; exact h), k3 h]
+
+/-- **`MakeFilename` never replaces an existing name unless `overwrite` is set**: for every list of methods, every
+`name` and every incoming context, an existing `output.filename` / `dirname` / `fileext` is kept. -/
+theorem makefilename_keeps_existing (ms : List (MFKey × Tpl)) (name : Option String) (o : OutCtx) :
+    (o.filename.isSome → (mfCall false ms name o).1.filename = o.filename) ∧
+    (o.dirname.isSome → (mfCall false ms name o).1.dirname = o.dirname) ∧
+    (o.fileext.isSome → (mfCall false ms name o).1.fileext = o.fileext) :=
+  mfCall_foldl_keeps name ms (o, false)
+
+/-- **prefix and suffix are applied exactly once and consumed**: `MakeFilename(filename=tpl)` on a value without
+a file name creates `prefix + name + suffix` from `output.prefix` / `output.suffix` and leaves no (non-empty)
+prefix or suffix behind — so a later `MakeFilename` cannot apply them again. -/
+theorem makefilename_prefix_suffix_once (ow : Bool) (tpl : Tpl) (name : Option String) (o : OutCtx) (r : String)
+    (hf : fmt tpl name = some r) (hno : o.filename = none ∨ ow = true) :
+    let o' := (mfCall ow [(.filename, tpl)] name o).1
+    o'.filename = some (o.pfx.getD "" ++ r ++ o.sfx.getD "") ∧ truthy o'.pfx = false ∧ truthy o'.sfx = false ∧
+    o'.dirname = o.dirname ∧ o'.fileext = o.fileext := by
+  obtain ⟨fnm, dn, fe, ft, px, sx, fp, ch⟩ := o
+  have hp : (fnm.isSome && !ow) = false := by
+    rcases hno with h | h
+    · simp only at h; simp [h]
+    · simp [h]
+  simp only [mfCall, List.foldl_cons, List.foldl_nil, mfStep, hp, hf]
+  cases px with
+  | none => cases sx with
+    | none => simp [truthy]
+    | some s => by_cases hs : s = "" <;> simp [truthy, hs]
+  | some p => cases sx with
+    | none => by_cases hp' : p = "" <;> simp [truthy, hp']
+    | some s => by_cases hp' : p = "" <;> by_cases hs : s = "" <;> simp [truthy, hp', hs]
+
+/-- once the name was made, a second name-making `MakeFilename` (even with `overwrite`) gets no prefix or suffix -/
+theorem makefilename_second_has_no_prefix (ow ow2 : Bool) (tpl tpl2 : Tpl) (name : Option String) (o : OutCtx) (r r2 : String)
+    (hf : fmt tpl name = some r) (hf2 : fmt tpl2 name = some r2) (hno : o.filename = none ∨ ow = true) :
+    (mfCall ow2 [(.filename, tpl2)] name (mfCall ow [(.filename, tpl)] name o).1).1.filename
+      = if ow2 then some r2 else some (o.pfx.getD "" ++ r ++ o.sfx.getD "") := by
+  obtain ⟨h1, h2, h3, _, _⟩ := makefilename_prefix_suffix_once ow tpl name o r hf hno
+  cases ow2 with
+  | false =>
+    have := (makefilename_keeps_existing [(.filename, tpl2)] name (mfCall ow [(.filename, tpl)] name o).1).1 (by rw [h1]; rfl)
+    rw [this, h1]; rfl
+  | true =>
+    obtain ⟨g1, _⟩ := makefilename_prefix_suffix_once true tpl2 name (mfCall ow [(.filename, tpl)] name o).1 r2 hf2 (.inr rfl)
+    rw [g1]
+    have e1 : (mfCall ow [(.filename, tpl)] name o).1.pfx.getD "" = "" := by
+      revert h2; unfold truthy; cases (mfCall ow [(.filename, tpl)] name o).1.pfx <;> simp
+    have e2 : (mfCall ow [(.filename, tpl)] name o).1.sfx.getD "" = "" := by
+      revert h3; unfold truthy; cases (mfCall ow [(.filename, tpl)] name o).1.sfx <;> simp
+    rw [e1, e2]; simp
+
+/-- `MakeFilename(prefix=…)`: the new prefix goes before an existing one, a new suffix after an existing one -/
+theorem makefilename_prefix_accumulates (tpl : Tpl) (name : Option String) (o : OutCtx) (r : String)
+    (hf : fmt tpl name = some r) :
+    (mfCall false [(.pfx, tpl)] name o).1.pfx = some (r ++ o.pfx.getD "") ∧
+    (mfCall false [(.sfx, tpl)] name o).1.sfx = some (o.sfx.getD "" ++ r) := by
+  obtain ⟨fnm, dn, fe, ft, px, sx, fp, ch⟩ := o
+  simp only [mfCall, List.foldl_cons, List.foldl_nil, mfStep, hf]
+  constructor
+  · cases px with
+    | none => simp [truthy]
+    | some p => by_cases hp : p = "" <;> simp [truthy, hp]
+  · cases sx with
+    | none => simp [truthy]
+    | some p => by_cases hp : p = "" <;> simp [truthy, hp]
+
+/-- `MakeFilename.__init__`: `filename` together with `prefix` or `suffix`, or no argument at all, is a
+`LenaTypeError` -/
+theorem makefilename_init_rules (a : MFArgs) :
+    ((a.filename.isSome ∧ (a.pfx.isSome ∨ a.sfx.isSome)) → mfInit a = .error .lenaTypeError) ∧
+    ((a.filename = none ∧ a.dirname = none ∧ a.fileext = none ∧ a.pfx = none ∧ a.sfx = none) →
+      mfInit a = .error .lenaTypeError) := by
+  constructor
+  · rintro ⟨h1, h2⟩
+    unfold mfInit
+    rcases h2 with h2 | h2 <;> simp [h1, h2]
+  · rintro ⟨h1, h2, h3, h4, h5⟩
+    unfold mfInit
+    simp [h1, h2, h3, h4, h5]
+
+/-- **`Write._make_filename`: the file is `output_directory/dirname/filename.fileext`** for relative names
+(absolute ones lose their leading separator with a warning) -/
+theorem write_path_rule (outdir : String) (dn fn fe : String) (ft : Option String)
+    (hdn : isAbs dn = false) (hfn : isAbs (fn ++ "." ++ fe) = false) (hne : fn ≠ "") (hfe : fe ≠ "") :
+    wmfCore outdir "output" (some dn) (some fn) (some fe) ft
+      = .ok (dn, fn, fe, pjoin (pjoin outdir dn) (fn ++ "." ++ fe)) := by
+  have h2 : (fe != "") = true := by simp [hfe]
+  simp [wmfCore, hne, normPath, hdn, hfn, h2]
+
+/-- **every file named by a value yielded by `Write` exists at that path with the written content** (all modes):
+the value names `filepath`, `output.filename/fileext/filepath` are set, and the file holds the text (an
+`existing_unchanged` Write keeps an existing file). -/
+theorem write_file_at_path (conv : Conv C) (outdir : String) (mode : WMode) (w : World C) (v : Val C) (c : C)
+    (d fn fe p : String) (hd : v.data = .text c)
+    (hn : wmfCore outdir "output" v.out.dirname v.out.filename v.out.fileext v.out.filetype = .ok (d, fn, fe, p)) :
+    ∃ w' v', writeVal conv outdir mode w v = .ok (w', v') ∧ v'.data = .path p ∧
+      v'.out.filename = some fn ∧ v'.out.fileext = some fe ∧ v'.out.filepath = some p ∧
+      HasContent w'.fs p (effective mode (w.fs p) c) ∧ (∀ q, q ≠ p → w'.fs q = w.fs q) :=
+  ⟨_, _, writeVal_text conv outdir mode w v c d fn fe p hd hn, rfl, rfl, rfl, rfl,
+    writeCore_content mode p c w v.out.changed, fun _ h => writeCore_frame mode p c w v.out.changed h⟩
+
+/-- an empty `output.filename` is a `LenaRuntimeError` -/
+theorem write_empty_filename (outdir : String) (dn fe ft : Option String) :
+    wmfCore outdir "output" dn (some "") fe ft = .error .lenaRuntimeError := by
+  simp [wmfCore]
+
+
+/-! ## groups: `group_plots`, `_update_with_group` -/
+
+theorem allEq_some {α : Type} [DecidableEq α] {l : List (Option α)} {v : α} (h : allEq l = some v) :
+    ∀ x ∈ l, x = some v := by
+  cases l with
+  | nil => simp [allEq] at h
+  | cons a rest =>
+    simp only [allEq] at h
+    by_cases hall : (rest.all (· == a)) = true
+    · rw [if_pos hall] at h
+      subst h
+      intro x hx
+      simp only [List.mem_cons] at hx
+      rcases hx with rfl | hx
+      · rfl
+      · have := List.all_eq_true.mp hall x hx
+        simpa using this
+    · rw [if_neg hall] at h; cases h
+
+/-- `group_plots`: the group is changed iff some member is -/
+theorem groupPlotsChanged_iff (ms : List (Option Bool)) : groupPlotsChanged ms = true ↔ some true ∈ ms := by
+  unfold groupPlotsChanged
+  rw [List.any_eq_true]
+  constructor
+  · rintro ⟨m, hm, h⟩
+    cases m with
+    | none => simp at h
+    | some b => cases b <;> simp_all
+  · intro h; exact ⟨some true, h, rfl⟩
+
+/-- `_update_with_group`, the three-valued combination: true if any is true, else false if any is known to be
+false, else unknown -/
+theorem combineChanged_spec (c : Option Bool) (ms : List (Option Bool)) :
+    (some true ∈ c :: ms → combineChanged c ms = some true) ∧
+    (some true ∉ c :: ms → some false ∈ c :: ms → combineChanged c ms = some false) ∧
+    ((∀ x ∈ c :: ms, x = none) → combineChanged c ms = none) := by
+  unfold combineChanged
+  refine ⟨fun h => ?_, fun h1 h2 => ?_, fun h => ?_⟩
+  · have : (c :: ms).any (· == some true) = true := List.any_eq_true.mpr ⟨_, h, by simp⟩
+    simp only [this, if_true]
+  · have : (c :: ms).any (· == some true) = false := by
+      rw [List.any_eq_false]; intro x hx hxe; simp at hxe; subst hxe; exact h1 hx
+    simp only [this, Bool.false_eq_true, if_false]
+    rw [if_pos (List.contains_iff_mem.mpr h2)]
+  · have h1 : (c :: ms).any (· == some true) = false := by
+      rw [List.any_eq_false]; intro x hx hxe; simp at hxe; subst hxe; cases h _ hx
+    have h2 : (c :: ms).contains (some false) = false := by
+      rw [← Bool.not_eq_true, List.contains_iff_mem]; intro hm; cases h _ hm
+    simp only [h1, h2, Bool.false_eq_true, if_false]
+
+/-- **`output.changed` stays true through `MapGroup`**: if a member of the group was rewritten
+(`output.changed = True`), the group's `output.changed` is `True` after `_update_with_group` — whatever the
+group's own flag, the other members and the previous common context are. -/
+theorem group_changed_sticky (o : OutCtx) (newOuts : List OutCtx) (oldInter : OutCtx)
+    (h : ∃ x ∈ newOuts, x.changed = some true) : (updateWithGroup o newOuts oldInter).changed = some true := by
+  obtain ⟨x, hx, hxc⟩ := h
+  have hmem : some true ∈ newOuts.map (·.changed) := List.mem_map.mpr ⟨x, hx, hxc⟩
+  have hc := (combineChanged_spec o.changed (newOuts.map (·.changed))).1 (List.mem_cons_of_mem _ hmem)
+  unfold updateWithGroup
+  simp only [hc, updOut, diffOut, interOut, updSlot, diffSlot]
+  split
+  next v hv =>
+    by_cases hcond : allEq (newOuts.map (·.changed)) = oldInter.changed
+    · simp only [hcond, ↓reduceIte] at hv; cases hv
+    · simp only [hcond, ↓reduceIte] at hv
+      have := allEq_some hv (some true) hmem
+      cases this; rfl
+  · rfl
+
+/-- the group's own `True` can be reset when *all* members say `False` (their common `output.changed = False`
+overwrites it, lines 98-103).  Not reachable in the pipelines: no lena element turns a member's `True` into
+`False`, and the group's flag comes from its members. -/
+example : (updateWithGroup { changed := some true } [{ changed := some false }] {}).changed = some false := by decide
+
+/-- in a pipeline the group value starts with `output.changed = False` (`group_plots` of fresh values): after
+`MapGroup` it is `True` iff a member was rewritten — never unknown -/
+theorem group_changed_after_mapgroup (newOuts : List OutCtx) (oldInter : OutCtx) (hold : oldInter.changed = none) :
+    (updateWithGroup { changed := some false } newOuts oldInter).changed
+      = some (newOuts.any (·.changed == some true)) := by
+  by_cases hany : ∃ x ∈ newOuts, x.changed = some true
+  · rw [group_changed_sticky _ _ _ hany]
+    obtain ⟨x, hx, hxc⟩ := hany
+    have : newOuts.any (·.changed == some true) = true := List.any_eq_true.mpr ⟨x, hx, by simp [hxc]⟩
+    rw [this]
+  · have hnone : some true ∉ (some false :: newOuts.map (·.changed)) := by
+      intro hm
+      simp only [List.mem_cons, List.mem_map] at hm
+      rcases hm with hm | ⟨x, hx, hxc⟩
+      · cases hm
+      · exact hany ⟨x, hx, hxc⟩
+    have hc := (combineChanged_spec (some false) (newOuts.map (·.changed))).2.1 hnone (by simp)
+    have hf : newOuts.any (·.changed == some true) = false := by
+      rw [List.any_eq_false]; intro x hx hxe; simp at hxe; exact hany ⟨x, hx, hxe⟩
+    rw [hf]
+    unfold updateWithGroup
+    simp only [hc, updOut, diffOut, interOut, updSlot, diffSlot, hold]
+    split
+    next v hv =>
+      by_cases hcond : allEq (newOuts.map (·.changed)) = none
+      · simp only [hcond, ↓reduceIte] at hv; cases hv
+      · simp only [hcond, ↓reduceIte] at hv
+        -- all members carry the same known value, which is not `True`
+        cases hl : newOuts with
+        | nil => rw [hl] at hv; simp [allEq] at hv
+        | cons a rest =>
+          have := allEq_some hv (a.changed) (by rw [hl]; simp)
+          cases v with
+          | false => rfl
+          | true => exact absurd ⟨a, by rw [hl]; simp, this⟩ hany
+    · rfl
+
 end Lena.C19
